@@ -12,1863 +12,1722 @@ Definition show_fres (r : fres) : string :=
   end.
 Definition check (rs : list rune) : string := digest (show_fres (format_res rs)).
 Definition full (rs : list rune) : string := show_fres (format_res rs).
-Eval vm_compute in ("<<<M4502>>>" ++ check (runes_of_ascii "
-options {ArrayPrefixLenType = u16
-
-;FixedStringPadFromLeft=true ;
-	JavaPackage
-=""com.example.msg""
-	; GoPackage	= 
-""msg"";
-
-    GoModule  =
-	""example.com/msg""  ;}	MetaData
-
-Meta
-	{u32	SeqNum`sequence number` ,
-
-    char[ 8  ]	Symbol
-`symbol` , zchar[  5
-]
-	ZSym
-
-    `z symbol`
+Eval vm_compute in ("<<<M434>>>" ++ check (runes_of_ascii "  packet u { repeat Packet
+    `
+` , string	x @calculatedFrom( ""x y"" )
+`say ""hi""` , @tag( 42) repeat
+stringy
+, match len	as
+    /// triple
+    u {
+[7 ,""it's""// " ++ [27880; 37322]%N ++ runes_of_ascii "
+, 10 ,""a\\"" , 0, ""1""
+] :float ,
+    ""a	b""
+: Foo , }
+// `tick` ""quote"" 'q'
+// c
+, float ,repeat calculatedFrom
+{ uint64
+    body
 ,
-string
-Note,Symbol	AltSymbol`alias of symbol` , f64 Price  , 
-}
-packet
-    Inner 
-{
-u8
-	a,
-    i16	b, string  c 
-,
-    }
-
-packet Inner2{
-u8	a2
-,
-
-    char[
-
-3
-
-] c2 , }
-
-packet
-Logon  {
-    u8
-	x
-
-    ,  string  user  ,
-
-    repeat u16
-    codes
-
-,
-	} packet Logout{ u16 reason,
-}  packet Empty
-
-{}
-	root
-	packet Msg { u8 su8
-	,  uint8  luint8 ,  u16 su16
-, uint16
-luint16
-,
-u32
-
-    su32,	uint32	luint32
-    , u64 su64 , 
-uint64 
-luint64 
-, i8
-
-    si8,
-int8
-lint8
-	, i16
-
-    si16
-
-,
-    int16
-	lint16 , 
-i32
-
-    si32 ,
-int32 lint32 ,
-	i64 si64 , int64 
-lint64 ,
-
-f32 sf32 
-,
-    float32 lfloat32
-
-, f64
-    sf64
-
-    ,
-float64  lfloat64 , char[ 6]fsplain , @leftPad
-(
-	'0'
-
-) char[	4 ] fs0
-	,
-
-@rightPad	('0'  )char[ 5
-
-]	fs1 
-,@leftPad(' '
+    char[] uint8x
+, int32 len ,f32a
+@calculatedFrom( """ ++ [28040; 24687]%N ++ runes_of_ascii """
 )
-
-char[  6
-] fs2 ,@rightPad (	' '
-	)
-
-char[ 7
+, }	, @leftPad ( /// triple
+'\x00'
+    )
+    string
+    body , match// " ++ [128512]%N ++ runes_of_ascii " emoji
+msg_type as
+    As	{	[ """ ++ [128512]%N ++ runes_of_ascii """ ,
+    // packet A { u8 x, }
+    ""abc""
+// @lengthOf(
+/// triple
 ]
-	fs3
-    ,
+    : msg_type // @lengthOf(
+, [0123456789
+    // trailing space 
+    ,  10 ]:
+A, ""1"": Foo , 7:
+    string_ ,	""`tick`"" :	string_ 007	: int, }
+,
+}
+    packet BodyLength
+    {// trailing space 
+match crc as Pad// `tick` ""quote"" 'q'
+{
+    [0123456789 , ""\n"" , ""x y"" ,
+""\n"" , 7
+    , ""1"" ] : // @lengthOf(
+u8x
+, [ 00
+, ""abc"", """ ++ [128512]%N ++ runes_of_ascii """, ""a\\"" ,65535 ]:// " ++ [128512]%N ++ runes_of_ascii " emoji
+pack ,	},
+    @tag( 0 ) leftPad { char[]
+    options1 @lengthOf(	asx
+// a // b
+// " ++ [128512]%N ++ runes_of_ascii " emoji
+) ,char[ 0
+] /// triple
+As `crlf
+line` ,	i64  crc ,
+}
+,
+float64 asx , @leftPad ( // `tick` ""quote"" 'q'
+' ' ) T@calculatedFrom( ""abc""),  }packet As {
+    // " ++ [27880; 37322]%N ++ runes_of_ascii "
+    string i64_ @calculatedFrom( ""\n"")
+    ,@lengthOf( i8i8 )  @lengthOf( asx ) @rightPad('0'/// triple
+)repeat uint64	MetaDataX,tag zchar /// triple
+, @calculatedFrom( ""// no comment"") char[]u @calculatedFrom(// packet A { u8 x, }
+""a\\""
+// " ++ [27880; 37322]%N ++ runes_of_ascii "
+//x
+) `u8 x,`	, // trailing space 
+@calculatedFrom(""" ++ [233]%N ++ runes_of_ascii "t" ++ [233]%N ++ runes_of_ascii """ ) // @lengthOf(
+char[//
+10 ]
+repeatCount `
+` , } packet f32a {
+    Header  o ,
+    } packet chars { @rightPad( '0' ) match
+u128  as u8x {3 : i8i8
+// `tick` ""quote"" 'q'
+//	t
+,
+    255: charz [ 4294967296 , ""x y"",""" ++ [233]%N ++ runes_of_ascii "t" ++ [233]%N ++ runes_of_ascii """ ,
+    ""{,}"" ]	:
+x	,
+    65535 : len }
+, @lengthOf( u8x // " ++ [128512]%N ++ runes_of_ascii " emoji
+)i16 Foo@lengthOf(  u8x // packet A { u8 x, }
+),
+@lengthOf( _x)@leftPad ( ' ' )
+char[
+    // `tick` ""quote"" 'q'
+    255  ]
+tag
+    @calculatedFrom( ""it's"" )
+// trailing space 
+//
+, @calculatedFrom("""" ) float32 i64_ `line1
+line2` , repeat string
+    roots,string // trailing space 
+float, @lengthOf( Header ) @tag( 007
+    ) @calculatedFrom( ""abc"" ) match
+zchar  as
+u8x { ""a	b"" : charz , 0 :	len ,
+} ,zchar[ 00]MetaDataX
+    @calculatedFrom(
+    // c
+    ""a\""b""
+) `two words` ,} // `tick` ""quote"" 'q'")).
+Eval vm_compute in ("<<<M3816>>>" ++ check (runes_of_ascii "
+options 
+      // c
+  { chars 
+=
 
-@leftPad	(
-'\x00'  )  char[	8 ]
-fs4
-	, @rightPad
-    (
-	'\x00'
+'0';
+
+Pad	// " ++ [27880; 37322]%N ++ runes_of_ascii "
+
+  =
+
+    42
+
+;
+
+}  packet
+roots
+    {
+@calculatedFrom( """ ++ [28040; 24687]%N ++ runes_of_ascii """
+	)
+@calculatedFrom(  // a // b
+    ""// no comment"")chars,} 
+packet	body{
+
+    @lengthOf(x)
+	match msg_type
+	as
+    x_y_z{
+
+0123456789 
+:	uint8x,// packet A { u8 x, }
+    ""`tick`"" 
+:
+
+    i64_	// packet A { u8 x, }
+00//
+  :
+a1""{,}"" : 
+Header,
+[
+255
+
+    ]
+:  falsey
+	,
+}
+,	@calculatedFrom(
+
+    ""\n""
+	)  @rightPad
+	( )
+
+    @lengthOf(
+BodyLength  )
+i16 
+A
+@lengthOf(
+    uint8x)
+
+    ,
+char[] Foo
+    @lengthOf( T)
+    ,
+@leftPad (
+
+    '0' ) _x
+	{
+	Logon	// trailing space 
+  @lengthOf( //x
+		u ),
+}	,@leftPad
+    (  '\x00'
 
     ) char[
-9
-	] fs5 ,
+	4294967296
 
-@leftPad
-
-    ()
-char[ 10 ]
-
-fs6 
+] trueish
+@calculatedFrom( ""x y""
+    ) `" ++ [233]%N ++ runes_of_ascii "` 
 ,
-    @rightPad	(
+    @rightPad  (
+' '	) 
+      // packet A { u8 x, }
+    	match msg_type
+as
+
+pack
+{
+    [	""a\""b""
+	,
+""`tick`"" 
+]
+    :
+
+    asx
+
+,""x y"":a1	// `tick` ""quote"" 'q'
+		,""" ++ [128512]%N ++ runes_of_ascii """:  MetaDataX  42
+	: Foo 
+007//x
+      :trueish
+/// triple
+
+  // @lengthOf(
+	""it's"" 
+: string_ },  repeat Header  `
+`	,	@tag(
+	00 ) f32 options1
+@lengthOf(
+calculatedFrom
+    ), zchar[255	]
+Logon	, }
+
+    root
+packet packetx  {
+@lengthOf(
+
+calculatedFrom
+    )
+metadata
+x_y_z  ,
+	}
+
+    packet leftPad {
+
+match
+
+    roots
+as  falsey  { 
+""x y""	: u
+    ,
+""x y""
+
+:
+msg_type  }
+,  repeat  int64
+
+    leftPad  ,
+u  @calculatedFrom( ""x y"") 
+`tab	here` ,
+
+    @calculatedFrom(""packet""
+)
+	match 
+    // " ++ [27880; 37322]%N ++ runes_of_ascii "
+    // `tick` ""quote"" 'q'
+    matchKey as BodyLength{	255:
+
+a1
+	007 :  T ,  // `tick` ""quote"" 'q'
+    ""`tick`""
+//	t
+// a // b
+    :rootA ,
+[
+
+    ""a\\""
+, 1  ,
+255
+
+, 7	// packet A { u8 x, }
+    	,
+1
+
+,
+    ""it's""
+	,	1 ,42  ] :
+    x_y_z
+
+    ,
+42
+
+    :
+i64_//x
+  ,
+}//
+,
+
+    float64
+
+x_y_z
+	`doc`	,uint8x//x
+,string float 
+    //x
+  	// " ++ [27880; 37322]%N ++ runes_of_ascii "
+    @calculatedFrom(  ""\n""	) , 
+@lengthOf( 
+        // `tick` ""quote"" 'q'
+o) stringy  //
+@lengthOf(
+	rootA
 
 )
-
-    char[11 
-]
-    fs7
-    , zchar[
-7 
-]
-	fz
-
-,@leftPad (
-'0' )zchar[	3 
-] fzl0
-	, string  s1 `doc` , char[]
-
-    s2
-
-, Inner
-	, 
-Sub { u8
-q
-
+	, }  //x")).
+Eval vm_compute in ("<<<M538>>>" ++ check (runes_of_ascii "options
+    // c
+    {
+    chars =
+    '0' ; Pad // " ++ [27880; 37322]%N ++ runes_of_ascii "
+= 42 ;
+    } packet
+    roots
+{@calculatedFrom( """ ++ [28040; 24687]%N ++ runes_of_ascii """ ) @calculatedFrom(// a // b
+""// no comment"" ) chars, }
+    packet body { @lengthOf( x  ) match msg_type as x_y_z { 0123456789 :  uint8x
+, // packet A { u8 x, }
+""`tick`"" :
+i64_ // packet A { u8 x, }
+00 //
+:
+    a1
+""{,}"" :Header,	[255]	: falsey ,
+}
+, @calculatedFrom( ""\n"" ) @rightPad
+() @lengthOf( BodyLength) i16	A @lengthOf( uint8x ),char[] Foo @lengthOf(
+T )
+, @leftPad
+    (  '0' ) _x {Logon// trailing space 
+@lengthOf( //x
+u
+), } , @leftPad	( '\x00'
+) char[ 4294967296 ]
+    trueish @calculatedFrom(""x y"" )
+`" ++ [233]%N ++ runes_of_ascii "` ,@rightPad	(
+    ' ')
+    // packet A { u8 x, }
+    match msg_type as pack {[
+""a\""b"" , ""`tick`""]	: asx
+,""x y"" :  a1 // `tick` ""quote"" 'q'
+,
+    """ ++ [128512]%N ++ runes_of_ascii """	:
+    MetaDataX 42 :Foo	007//x
+: trueish
+/// triple
+// @lengthOf(
+""it's"" : string_	}	, repeat Header`
+`, @tag(
+00) f32
+options1 @lengthOf( calculatedFrom) ,zchar[255 ] Logon, } root
+packet packetx { @lengthOf(	calculatedFrom ) metadata	x_y_z, }
+packet leftPad { match roots  as
+falsey {
+""x y"" : u ,""x y"" : msg_type }
+    ,repeat int64 leftPad
+,
+u @calculatedFrom( ""x y"" ) `tab	here`
+, @calculatedFrom(
+""packet"" ) match
+// " ++ [27880; 37322]%N ++ runes_of_ascii "
+// `tick` ""quote"" 'q'
+matchKey as BodyLength{ 255 :
+a1 007: T , // `tick` ""quote"" 'q'
+""`tick`""
+//	t
+// a // b
+:
+rootA, [ ""a\\""	,
+1
+,255,7 // packet A { u8 x, }
+, 1 , ""it's""
+, 1, 42]
+:x_y_z
+,
+    42 :
+i64_//x
+, }//
+, float64 x_y_z
+    `doc`
+,
+    uint8x //x
+,string
+    float
+//x
+// " ++ [27880; 37322]%N ++ runes_of_ascii "
+@calculatedFrom( ""\n"") ,
+@lengthOf(
+    // `tick` ""quote"" 'q'
+    o
+)stringy //
+@lengthOf(
+rootA ) , } //x")).
+Eval vm_compute in ("<<<M1361>>>" ++ check (runes_of_ascii "options { u= char[] }	MetaData u// " ++ [27880; 37322]%N ++ runes_of_ascii "
+{  char[
+0 ] Logon , char[]x_y_z , string string_ // @lengthOf(
+,u64 uint8x ,
+}
+    packet body
+    {char[00 ] rootA	, T {stringy// packet A { u8 x, }
+{ repeat
+char[]
+//
+//x
+metadata `" ++ [28040; 24687; 31867; 22411]%N ++ runes_of_ascii "`
     ,
-
-    string
-
-    w, Deep{
-    u16
-z
-
+match i8i8// packet A { u8 x, }
+as
+BodyLength {
+0:
+BodyLength
+    //	t
     ,
-    repeat
-    i32 zs
-	,}
-,
-    }, repeat
-	u8	ru8
-
-,
-    repeat u16 ru16
-,
-repeat
-    u32
-
-ru32 ,  repeat
-
-u64 
-ru64
-    ,repeat
-
-    i8
-
-ri8,repeat i16 ri16  ,
-
-repeat  i32 ri32, repeat 
-i64
-
-ri64
-,repeat 
-f32
-
-    rf32 ,
-repeat
-
-f64
-
-rf64,
-    repeat
-
-    string
-
-rstr , repeat char[] rstr2  ,repeat
-    char[ 3
-]
-    rfs  ,repeat
-	zchar[
-3
-] rfz
-    , repeat
-
-    Inner2 ,
-
-    repeat  Grp{u8 
-k
-	,
-    char[ 2  ]
-
-v 
-,
+},// `tick` ""quote"" 'q'
+packetx
+@calculatedFrom( ""CRC32"" ) `
+` , }, int32 falsey`a\`,
+    } , //	t
+match // a // b
+Z9_ as calculatedFrom { 255
+//	t
+//	t
+: As // " ++ [27880; 37322]%N ++ runes_of_ascii "
 },
-	SeqNum
-
-, SeqNum
-    seq2  ,	repeat SeqNum
-	seqs
-
-    ,Symbol
-
-    , AltSymbol
-
-    alt ,
-ZSym, 
-Note 
+    // " ++ [27880; 37322]%N ++ runes_of_ascii "
+    Logon `doc` , } root  packet
+stringy
+    {match x
+as T {
+    65535 : Header
+,[ ""a\""b""
+, ""1"" ]// " ++ [128512]%N ++ runes_of_ascii " emoji
+:Z9_ ,
+//
+//
+}
+,char[]/// triple
+zchar @lengthOf( lengthOf )
+//x
+// @lengthOf(
+`two words`
+,options1 { repeat int
+Header `` , i8
+    Logon @calculatedFrom( ""a	b""
+    )  `" ++ [28040; 24687; 31867; 22411]%N ++ runes_of_ascii "` , // @lengthOf(
+} , uint32 roots `// not a comment`
 ,
-
-    repeat
-
-    Symbol syms ,Price px
-
+len
+//
+//
+{ match
+// `tick` ""quote"" 'q'
+//x
+options1
+    as
+//x
+// c
+o
+{65535 :  f32a , ""CRC32"" :
+tag ,// @lengthOf(
+4294967296
+:
+u8x
+    , 0 : metadata
 ,
-u16
-	MsgType
+""a	b"" : string_}
+    , char[ 65535 ]
+/// triple
+// " ++ [128512]%N ++ runes_of_ascii " emoji
+crc  @calculatedFrom(""{,}"" ) `crlf
+line`, Pad@lengthOf(
+leftPad	) ,uint8
+Z9_ `u8 x,`
+, }	, msg_type@calculatedFrom(
+"""")
 ,
-u32 BodyLen@lengthOf(
-Body	)
+// trailing space 
+// `tick` ""quote"" 'q'
+repeat u8x	,	match	metadata
+as BodyLength{
+    ""packet""//
+:f32a 7 : int /// triple
+0123456789 : x  , // `tick` ""quote"" 'q'
+} , uint16 i64_ , } packet
+string_{
+string_ ,
+/// triple
+//
+}
+")).
+Eval vm_compute in ("<<<M3647>>>" ++ check (runes_of_ascii "// top
+options // c0a
+  // c0b
+{ LittleEndian =
+    // c3
+false ; // c5
+ArrayPrefixLenType
+    // c6
+= // c7a
+  // c7b
+u64 // c8
+; // c9a
+  // c9b
+FixedStringPadChar // c10
+= '0' // c12
+;
+    // c13
+} // c14
+packet
+    // c15
+Quote // c16
+{ repeat // c18
+InFlags37 // c19
+{ char[] // c21a
+  // c21b
+lastPx // c22
+, // c23
+} ,
+    // c25
+i16 // c26
+tag7
+    // c27
 ,
-
-    match MsgType as
-	Body
-	{ 1 
-:Logon
-
-, [2	,
-
-    3
-
+    // c28
+char[]
+    // c29
+f1 // c30
+,
+    // c31
+zchar[ // c32a
+  // c32b
+6 // c33
+] // c34
+Note , } packet Order // c39
+{
+    // c40
+u8 Ref // c42a
+  // c42b
+, repeat // c44a
+  // c44b
+Quote , repeat // c47
+string Acct
+    // c49
+, // c50
+}
+    // c51
+root // c52a
+  // c52b
+packet // c53a
+  // c53b
+Heartbeat { repeat
+    // c56
+Quote
+    // c57
+, @leftPad (
+    // c60
+'0'
+    // c61
+) char[ // c63
+11
+    // c64
 ]
-	:
-
-Logout
-    ,7 :  Logon
-,9  :
-	Empty
-
+    // c65
+OrderId // c66a
+  // c66b
+, zchar[ 8 // c69a
+  // c69b
+]
+    // c70
+Ref // c71a
+  // c71b
+, // c72a
+  // c72b
+u32 // c73
+Flags // c74a
+  // c74b
+, // c75a
+  // c75b
+u32 // c76
+Tail
+    // c77
+@lengthOf( Body // c79a
+  // c79b
+)
+    // c80
+, // c81
+match
+    // c82
+Flags as
+    // c84
+Body { // c86
+156 // c87
+: // c88a
+  // c88b
+Order
+    // c89
+, // c90a
+  // c90b
+7
+    // c91
+:
+    // c92
+Quote // c93
 ,
+    // c94
+} // c95
+, // c96a
+  // c96b
+} // c97
+")).
+Eval vm_compute in ("<<<M668>>>" ++ check (runes_of_ascii "options{// packet A { u8 x, }
+uint8x =	'\x00' Foo  =
+    65535 ; As
+    =
+""" ++ [28040; 24687]%N ++ runes_of_ascii """ } options{} // `tick` ""quote"" 'q'
+root	packet i8i8
+{// packet A { u8 x, }
+repeat
+calculatedFrom	body `" ++ [233]%N ++ runes_of_ascii "` ,	@tag( 1)
+repeat lengthOf{match
+asx as x// @lengthOf(
+{ """ ++ [233]%N ++ runes_of_ascii "t" ++ [233]%N ++ runes_of_ascii """ : T	}
+    //x
+    ,	trueish @calculatedFrom( ""\n"") ,
+    u32 x ,} , @rightPad ('\x00'	) i32 packetx //	t
+@lengthOf(
+// @lengthOf(
+// " ++ [128512]%N ++ runes_of_ascii " emoji
+trueish )
+    , @tag( 10) repeat
+asx
+    { repeat int32 lengthOf , int8
+repeatCount ``// a // b
+,
+repeatCount msg_type ,
+msg_type{ Logon { charz u
+    `it's` ,calculatedFrom
+repeatCount `crlf
+line`
+    // `tick` ""quote"" 'q'
+    ,
+    }
+, }
+,
+// " ++ [27880; 37322]%N ++ runes_of_ascii "
+//	t
+} // " ++ [128512]%N ++ runes_of_ascii " emoji
+, _x { // trailing space 
+match
+    x_y_z
+as packetx {""`tick`"" :
+Pad ,
+    """" : x, } , char[] T, int
+,Z9_ falsey, } ,string  T
+    `it's` ,@lengthOf(u128
+)// @lengthOf(
+u128 @calculatedFrom(""1""	)
+    , u128 { float { zchar[ 00
+] MetaDataX@lengthOf(// " ++ [128512]%N ++ runes_of_ascii " emoji
+leftPad
+) `it's` , } ,
+repeat char[] tag // " ++ [128512]%N ++ runes_of_ascii " emoji
+,
+} ,
+//x
+// " ++ [128512]%N ++ runes_of_ascii " emoji
+@leftPad
+( '0') match A as lengthOf {""packet""
+: Header 0123456789 :
+leftPad ,
+    ""a\""b""	: zchar ""a	b"": // `tick` ""quote"" 'q'
+rootA ,
+}
+    ,
+    string crc	, }")).
+Eval vm_compute in ("<<<M477>>>" ++ check (runes_of_ascii "
+MetaData
+    asx
+// a // b
+/// triple
+{
+char[]	Z9_ // " ++ [128512]%N ++ runes_of_ascii " emoji
+`doc` , }
+    packet roots { a1 @lengthOf( string_ ) ,	char[ 0123456789 ] Logon`
+` , // " ++ [128512]%N ++ runes_of_ascii " emoji
+@calculatedFrom(
+""`tick`""  )
+i64 u128
+    //
+    , i32 matchKey
+    `doc` ,match asx as pack { /// triple
+[ 0 ] : x_y_z
+0123456789 :float,
+00 : packetx
+65535 : crc
+,	4294967296
+    :a1 } , falsey
+float ,  @calculatedFrom(""CRC32"") // " ++ [128512]%N ++ runes_of_ascii " emoji
+@lengthOf( body ) @lengthOf( MetaDataX )// @lengthOf(
+leftPad
+@calculatedFrom( """ ++ [28040; 24687]%N ++ runes_of_ascii """
+)
+`// not a comment`,
+    uint8 packetx @calculatedFrom( ""a	b"")// packet A { u8 x, }
+,}  packet
+    Logon	{
+    } packet zchar { /// triple
+Z9_
+{ repeat i8 Foo	,	f64
+    // " ++ [128512]%N ++ runes_of_ascii " emoji
+    falsey
+`tab	here` // " ++ [27880; 37322]%N ++ runes_of_ascii "
+,
+match  msg_type as As{
+255: roots
+, [ 4294967296, 7
+    , ""`tick`""
+, 65535	] :
+metadata, """ ++ [233]%N ++ runes_of_ascii "t" ++ [233]%N ++ runes_of_ascii """: x_y_z ""`tick`"" : x_y_z , [
+    42 , ""CRC32"" , //x
+""// no comment"",  0123456789	, ""// no comment"" , ""CRC32"" ,	""" ++ [128512]%N ++ runes_of_ascii """ ,
+    ""{,}"" //
+]:packetx, } , o@lengthOf(
+msg_type ) `it's` , }	,	@calculatedFrom( """ ++ [28040; 24687]%N ++ runes_of_ascii """ )
+uint64 x
+`crlf
+line` , zchar[
+7 ]
+Logon , repeat rootA matchKey `crlf
+line` ,} // " ++ [27880; 37322]%N)).
+Eval vm_compute in ("<<<M294>>>" ++ check (runes_of_ascii "MetaData roots { zchar[ 7 ] body , } packet trueish { repeat zchar[ 0123456789
+] i8i8 `line1
+line2`
+//x
+/// triple
+, } packet u8x { x_y_z chars
+, @calculatedFrom( """ ++ [28040; 24687]%N ++ runes_of_ascii """) @calculatedFrom(
+    """ ++ [28040; 24687]%N ++ runes_of_ascii """ )
+    @tag( 007) int64
+Foo// trailing space 
+,int8 _x`it's`
+, match x as Foo {
+[// c
+65535,	""" ++ [233]%N ++ runes_of_ascii "t" ++ [233]%N ++ runes_of_ascii """	,""abc"" ,
+""\" ++ [233]%N ++ runes_of_ascii """// @lengthOf(
+,	10 ]: // packet A { u8 x, }
+Pad
+, } ,
+body
+{ match msg_type as uint8x {
+""a\""b"" :	falsey 0 :  Packet""it's""
+:lengthOf //	t
+""" ++ [28040; 24687]%N ++ runes_of_ascii """:
+charz ,} ,
+    // a // b
+    }	,	@tag( 42 )@calculatedFrom(
+""\" ++ [233]%N ++ runes_of_ascii """
+    )// c
+@lengthOf(
+u )
+    repeat char
+calculatedFrom	, @tag(
+// @lengthOf(
+// " ++ [128512]%N ++ runes_of_ascii " emoji
+1  )
+@rightPad ( '\x00'
+) @lengthOf( f32a )
+int16 pack
+`" ++ [233]%N ++ runes_of_ascii "` , @lengthOf(
+    // c
+    A //x
+) repeat
+char[]
+    options1 , } packet _x { @lengthOf(
+    options1)  string
+    u8x @lengthOf(
+_x// a // b
+), repeat
+// " ++ [128512]%N ++ runes_of_ascii " emoji
+// packet A { u8 x, }
+Pad
+{ As	{ matchKey chars ,
+} ,// trailing space 
+} ,repeat string crc
+    //
+    `line1
+line2` ,
+    //
+    } packet crc{@calculatedFrom( ""{,}"" )  a1 u128 , } //	t")).
+Eval vm_compute in ("<<<M202>>>" ++ check (runes_of_ascii "root packet body{
+@tag(
+4294967296
+    )
+As @calculatedFrom(""" ++ [128512]%N ++ runes_of_ascii """ )
+    `a\` , /// triple
+} root packet
+    uint8x
+{ MetaDataX{ repeat
+matchKey lengthOf , repeat u32 uint8x
+// packet A { u8 x, }
+// a // b
+`doc`
+    /// triple
+    ,
+} ,  } options { int // a // b
+=
+    ""abc"" } packet
+    // trailing space 
+    u8x {
+} root
+packet // " ++ [128512]%N ++ runes_of_ascii " emoji
+falsey {repeat float32	u , repeat	char[]
+// " ++ [128512]%N ++ runes_of_ascii " emoji
+// packet A { u8 x, }
+msg_type
+    `
+` , @leftPad ( ' ')
+    @tag(255
+)match Header as msg_type
+    { 3 :uint8x
+    ,
+    255 :
+x , // trailing space 
+7 // " ++ [27880; 37322]%N ++ runes_of_ascii "
+: leftPad
+// c
+// `tick` ""quote"" 'q'
+""" ++ [28040; 24687]%N ++ runes_of_ascii """
+// packet A { u8 x, }
+// c
+: Packet ,[ 4294967296
+    ,""1"" ] :
+    T , } ,
+    //	t
+    Logon @calculatedFrom( ""x y"")  `it's`
+, string charz @calculatedFrom(
+// " ++ [128512]%N ++ runes_of_ascii " emoji
+//	t
+""abc""
+) ,
+string options1	,
+/// triple
+/// triple
+@lengthOf(
+//
+//x
+As
+    ) repeat zchar[ // `tick` ""quote"" 'q'
+7 ]zchar , @lengthOf(
+    crc)x_y_z
+    @calculatedFrom(
+""" ++ [28040; 24687]%N ++ runes_of_ascii """ ) ,
+}
+")).
+Eval vm_compute in ("<<<M4236>>>" ++ check (runes_of_ascii "// c
+    packet 
+i8i8
+
+{
 
     }
-	,u32 
-Checksum
+    packet
+	string_ { @rightPad
+    ('\x00' 	 //x
+		) 
+int
 
-    @calculatedFrom(
-""CRC32""
+    Packet 
+,  // a // b
+  @tag(
 
-),}")).
-Eval vm_compute in ("<<<M4299>>>" ++ check (runes_of_ascii "root packet Header {
-    repeat zchar[10] charz `two words`,
-    repeat u8 uint8x `" ++ [233]%N ++ runes_of_ascii "`,
-    T @calculatedFrom(""{,}"") `u8 x,`,
-    char[1] trueish @lengthOf(x_y_z) `crlf
-    line`,
-    repeat Pad Foo,
-    @lengthOf(roots)
-    repeat asx,
-    @rightPad('0')
-    @leftPad('0')
-    @leftPad('0')
-    uint8 x @lengthOf(body) `crlf
-    line`,
-    match body as rootA {
-        [0, ""\n""] : x_y_z,
-        10 : packetx,
-        1 : BodyLength,
-        """ ++ [233]%N ++ runes_of_ascii "t" ++ [233]%N ++ runes_of_ascii """ : zchar,
-        3 : As,
-        """ ++ [233]%N ++ runes_of_ascii "t" ++ [233]%N ++ runes_of_ascii """ : asx,
-    },
-    match packetx as lengthOf {
-        """ ++ [233]%N ++ runes_of_ascii "t" ++ [233]%N ++ runes_of_ascii """ : roots,
-        42 : lengthOf,
-        [""a\""b""] : asx,
-    },
-}
+255 )	matchKey ,
+    chars	@calculatedFrom( ""packet""	)
+    `
+`
+	,_x @lengthOf(u
 
-packet calculatedFrom {
-    @calculatedFrom(""abc"")
-    repeat u64 stringy,
-    @calculatedFrom(""" ++ [233]%N ++ runes_of_ascii "t" ++ [233]%N ++ runes_of_ascii """)
-    i32 i8i8 @lengthOf(f32a),
-    i8 Pad @calculatedFrom(""a\\""),
-    char charz `" ++ [28040; 24687; 31867; 22411]%N ++ runes_of_ascii "`,
-    @calculatedFrom(""" ++ [233]%N ++ runes_of_ascii "t" ++ [233]%N ++ runes_of_ascii """)
-    @tag(4294967296)
-    rootA msg_type,
-    @calculatedFrom(""CRC32"")
-    @tag(007)
-    @tag(0)
-    uint8 A `crlf
-    line`,
-    char[0123456789] repeatCount `" ++ [233]%N ++ runes_of_ascii "`,
-    packetx @lengthOf(tag) `it's`,
-    @lengthOf(leftPad)
-    @calculatedFrom(""\n"")
-    @leftPad()
-    Foo @calculatedFrom(""a\\"") `" ++ [28040; 24687; 31867; 22411]%N ++ runes_of_ascii "`,
-}
-
-packet metadata {
-    packetx `" ++ [28040; 24687; 31867; 22411]%N ++ runes_of_ascii "`,
-    u16 i64_ @calculatedFrom(""a\""b"") `
-    `,
-}
-
-//	t
-packet falsey {
-    @lengthOf(int)
-    // trailing space 
-    // " ++ [27880; 37322]%N ++ runes_of_ascii "
-    Packet,
-    @calculatedFrom(""packet"")
-    @lengthOf(trueish)
-    @leftPad()
-    A repeatCount,
-    A `
-    `,
-    repeat trueish `{ , }`,
-    zchar[42] rootA @lengthOf(A),
-}
-
-root packet u {
-    repeat char[] i8i8,
-    @tag(007)
-    body {
-        repeat u8x `tab	here`,
-    },
-    @rightPad('\x00')
-    i16 matchKey `it's`,
-    @lengthOf(trueish)
-    metadata @lengthOf(lengthOf),// `tick` ""quote"" 'q'
-    int @calculatedFrom(""`tick`""),
-    @tag(3)
-    match x_y_z as BodyLength {
-        1 : options1,
-    },
-    repeat i64_ string_,
-    //
-    u8 trueish,
-    f64 calculatedFrom,
-}")).
-Eval vm_compute in ("<<<M4331>>>" ++ check (runes_of_ascii "packet zchar {
-    match calculatedFrom as repeatCount {
-        [""{,}""] : zchar,
-        00 : Pad,
-        0 : pack,
-    },// @lengthOf(
-    f64 o `" ++ [28040; 24687; 31867; 22411]%N ++ runes_of_ascii "`,
-    int32 f32a @lengthOf(body) `
-        `,
-    char[3] chars `crlf
-        line`,
-}
-
-MetaData metadata {
-    string int,
-    len lengthOf,
-}
-
-root packet A {
-    @tag(0123456789)
-    zchar[0123456789] BodyLength,
-    @leftPad('0')
-    @rightPad(' ')
-    zchar[0123456789] tag `it's`,
-    @tag(007)
-    @tag(7)
-    falsey @calculatedFrom(""\" ++ [233]%N ++ runes_of_ascii """),
-    @calculatedFrom(""{,}"")
-    repeat Packet,
-    @lengthOf(u)
-    @calculatedFrom(""a\""b"")
-    @lengthOf(lengthOf)
-    char[] uint8x,
-    @leftPad('\x00')
-    // trailing space 
-    repeat T {
-        i8i8 a1,
-        char[65535] chars `u8 x,`,
-        Pad,
-    },
-    @lengthOf(o)
-    u8 x,
-    @calculatedFrom(""a	b"")
-    lengthOf `// not a comment`,
-    A {
-        repeat calculatedFrom matchKey,
-        options1 @calculatedFrom(""a	b""),// trailing space 
-        repeat u `line1
-                line2`,
-    },
-}
-
-packet i8i8 {
-}
-
-packet pack {
-    zchar[0123456789] leftPad `
-        `,
-    @rightPad('\x00')
-    repeat int `" ++ [28040; 24687; 31867; 22411]%N ++ runes_of_ascii "`,
-    match Packet as BodyLength {
-        [00, 7] : falsey,
-    },
-    @tag(00)
-    repeat zchar[1] len `u8 x,`,
-    @leftPad()
-    rootA @lengthOf(len),
-    @tag(42)
-    @lengthOf(i64_)
-    repeat len {
-        x {
-            Logon {
-                options1 Logon,
-            },
-            stringy {
-                string body @lengthOf(tag),
-            },
-            falsey falsey,
-        },
-        MetaDataX roots `// not a comment`,
-    },
-}")).
-Eval vm_compute in ("<<<M948>>>" ++ check (runes_of_ascii "options { o // c
-= ""it's""; }
-/// triple
-/// triple
-packet calculatedFrom { int32 Header @calculatedFrom( ""x y""
-)
-    `" ++ [28040; 24687; 31867; 22411]%N ++ runes_of_ascii "`	,
-    @tag( // a // b
-0 ) @lengthOf( f32a // " ++ [128512]%N ++ runes_of_ascii " emoji
-)match i64_ as T
-    // " ++ [27880; 37322]%N ++ runes_of_ascii "
-    { 255
-    :
-Foo 1
-: T
-,
-    ""a	b"":  Header , 1 : x, } , } root packet options1 {
-@leftPad ( // a // b
-' ' )
-    match
-uint8x as lengthOf  { ""`tick`""
-    // c
-    :
-x_y_z ,
-} , @calculatedFrom( ""a\""b""
-)repeat
-// trailing space 
-// " ++ [27880; 37322]%N ++ runes_of_ascii "
-body`
-`  ,
-char[ 10 ] float
-    // c
-    ,match
-stringy as repeatCount {[
-42
-// c
-/// triple
-, ""`tick`""
-    ]:
-    float , //	t
-""abc"": matchKey
-, // a // b
-7
-    :	As
-    255
-: pack
-,
-""{,}"" : len
-,
-3
-:	metadata	, } ,char[3 ] trueish @calculatedFrom(
-""CRC32""
     )
-,
-    repeat charz { match Pad	as Z9_ { ""packet"" : f32a , ""{,}""
-: f32a 7 : _x ,  00 :repeatCount , 4294967296 : asx , ""CRC32""
-    : u128//x
-} ,
-    char[ 42 ] //	t
-crc `two words` ,
+
+    ,	@tag(	// c
+    255)  asx 
+Foo ,string
+roots
+
+,repeat
+falsey
+{  matchKey	{
+
+    match Pad as
+i8i8 //x
+    	{
+	[ 00
+	,7	]:u 
+, 1
+: BodyLength, 	 // a // b
+	""// no comment"" :
+
+    metadata,
+
+""""
 // @lengthOf(
-//	t
-repeat Foo // @lengthOf(
-`doc` // a // b
-,} , } options // `tick` ""quote"" 'q'
-{ falsey =
-    false ;// trailing space 
-Header
-=true ; // `tick` ""quote"" 'q'
-packetx = u64
-    ; calculatedFrom
-//
-// a // b
-= ""\n"";
-    } packet
-    body {@tag( 42  ) repeat
-i16
-    u128`// not a comment`
-    ,@tag( 0 )@tag(  0123456789 ) @calculatedFrom( ""\n""	)
-zchar[ 255 ] x_y_z @lengthOf( stringy	) ,
-f32a @lengthOf(
-Logon
-    )
-,  repeat zchar[ 10] _x , float64 charz
-`` ,
-Pad
-@lengthOf(
-    u ) , body ``, }
-")).
-Eval vm_compute in ("<<<M567>>>" ++ check (runes_of_ascii "options {
+  //
+
+	:
+	BodyLength
+/// triple
+,}
+
+    ,
+
 }
-MetaData	x_y_z{
-    string_ packetx ,  metadata// packet A { u8 x, }
-o ,	char[
-3 ]charz
-// a // b
-//x
-, zchar
-charz,}
+
+, 
+A,
+
+repeat
+
+char
+
+    falsey , } , 	 // packet A { u8 x, }
+    	_x	u`it's`,  @leftPad 
+( 
+'\x00'
+
+    )
+    @calculatedFrom(
+    ""\n""
+	)match
+x_y_z
+    as
+
+metadata  { ""CRC32""	:
+
+    packetx  // packet A { u8 x, }
+,  ""packet"" 
+:
+
+    metadata
+1  :
+string_  // c
+  , [ 0
+
+,  // " ++ [128512]%N ++ runes_of_ascii " emoji
+10
+] 
+:  // packet A { u8 x, }
+  falsey	// " ++ [27880; 37322]%N ++ runes_of_ascii "
+	,
+    },
+char[] chars
+@lengthOf( zchar/// triple
+  	) `say ""hi""` 
+,
+    }
+")).
+Eval vm_compute in ("<<<M936>>>" ++ check (runes_of_ascii "
 MetaData
-    /// triple
-    T{ zchar[
-3 ] len ,u x_y_z	, u64 A ,
-} packet
-zchar  { @tag(
-    4294967296 ) @calculatedFrom( """ ++ [233]%N ++ runes_of_ascii "t" ++ [233]%N ++ runes_of_ascii """ ) @calculatedFrom( ""abc""
-) match tag as  tag
-    {
-    """"
-    :
-    stringy ,
-""" ++ [28040; 24687]%N ++ runes_of_ascii """:
-    // trailing space 
-    f32a ,4294967296 :
-    matchKey ,	0
-: msg_type // " ++ [27880; 37322]%N ++ runes_of_ascii "
-,7 :
-    //	t
-    Logon
-, 7
+A
 //
+// " ++ [128512]%N ++ runes_of_ascii " emoji
+{ u8x
+A /// triple
+``
+, int16 roots `// not a comment`
+    , u128 u,
+int options1 `" ++ [28040; 24687; 31867; 22411]%N ++ runes_of_ascii "`,  i16 repeatCount
+,i8	roots, // `tick` ""quote"" 'q'
+} root
+packet matchKey{  lengthOf/// triple
+{ i64_@lengthOf( msg_type )
+, } ,
+    }
+options
+    {x=
+    char[] } // trailing space 
+packet
+As{ i64_`crlf
+line` , // c
+rootA Z9_	,string Pad @calculatedFrom( ""// no comment""
+) `say ""hi""`
+,
+@rightPad
+(
+    '\x00' )
+@calculatedFrom(
+    ""{,}""
+)// `tick` ""quote"" 'q'
+@calculatedFrom(
+    ""CRC32""	)falsey `doc` , match Logon as tag { 3 : f32a ,
+    ""abc"":  o , 255 :	A""abc"": leftPad, }  , @calculatedFrom(""" ++ [233]%N ++ runes_of_ascii "t" ++ [233]%N ++ runes_of_ascii """)repeat u32
+_x `{ , }` , repeat stringy`a\`
+,
+// @lengthOf(
+// " ++ [128512]%N ++ runes_of_ascii " emoji
+len // packet A { u8 x, }
+@lengthOf(Header
+)
+//
+// " ++ [27880; 37322]%N ++ runes_of_ascii "
+`" ++ [28040; 24687; 31867; 22411]%N ++ runes_of_ascii "`
+,
+    i32 len @lengthOf( repeatCount ) `line1
+line2`,
+    @tag(
+//x
+// a // b
+42//x
+)	BodyLength	,	}")).
+Eval vm_compute in ("<<<M884>>>" ++ check (runes_of_ascii "packet Packet
+{asx
+    //	t
+    @lengthOf(metadata)  `line1
+line2`
+// " ++ [128512]%N ++ runes_of_ascii " emoji
+// packet A { u8 x, }
+,
+@tag( 0123456789) repeat char tag,
+BodyLength @calculatedFrom( ""`tick`""
+)
+, @calculatedFrom(
+""\" ++ [233]%N ++ runes_of_ascii """ )
+tag @calculatedFrom(// @lengthOf(
+""" ++ [233]%N ++ runes_of_ascii "t" ++ [233]%N ++ runes_of_ascii """
+    )	,@leftPad
+( ) match o as T
+    {	""CRC32"":metadata [ 7, // trailing space 
+""CRC32"", ""CRC32""
+, ""a\\"" , 0123456789
+]
+:
+i8i8 4294967296
+:
+    o, [65535 ] : leftPad, 00:
+charz
+    , } , string_ @calculatedFrom( ""\n"" ) `u8 x,` , }
+root packet Foo // `tick` ""quote"" 'q'
+{ @rightPad(
+    '0'
+    ) repeat msg_type string_ , } root packet Z9_{ @calculatedFrom(
+    // c
+    ""1"")string
+    A //x
+, repeat x zchar,  @tag( 1
+    ) @tag( 0 ) i64_
+    float
+`tab	here` , repeat //
+u8 _x
+    `` , lengthOf
+@calculatedFrom(
+    ""`tick`"")
+//x
+// trailing space 
+,
+    }
+")).
+Eval vm_compute in ("<<<M166>>>" ++ check (runes_of_ascii "packet A {
+@lengthOf(
+    lengthOf)int16 packetx // trailing space 
+@calculatedFrom(""1"" )
+    , repeat u64 Packet`
+` , match trueish as /// triple
+roots { 3
+: A ,""x y""
+// " ++ [27880; 37322]%N ++ runes_of_ascii "
+//
+:
+BodyLength
+    //
+    ,
+    42:Foo  , },
+} packet As	{
+    msg_type @lengthOf(
+    /// triple
+    u )
+    , }root packet
+    zchar
+    {i8i8 i8i8
+`
+` ,zchar
+    {int8	Foo
+`a\`  , },
+    f32 pack @lengthOf(
+crc
+// packet A { u8 x, }
+// c
+) , @calculatedFrom( ""{,}""	) // " ++ [27880; 37322]%N ++ runes_of_ascii "
+match crc as
+roots { 65535 : int ""packet""
+:  float ,00 : zchar
+// packet A { u8 x, }
+// `tick` ""quote"" 'q'
+, [ ""x y""] :
+options1, ""it's""
+:x, } , @lengthOf(
+Packet)
+    match x
+    //	t
+    as As{ //	t
+0: lengthOf
+,
+    //	t
+    3 : pack , ""it's""  : x_y_z ,
+""a\""b"" : metadata
+} , uint16
+    i8i8, } // a // b")).
+Eval vm_compute in ("<<<M924>>>" ++ check (runes_of_ascii "  packet Pad{	@leftPad ( '\x00' ) @tag( 42
+    )@rightPad ( ' ')
+    uint8 asx
+    // c
+    ,
+@rightPad
+    (	)string a1,	u8x  @calculatedFrom( """ ++ [128512]%N ++ runes_of_ascii """ )	,	@tag(
+    1 ) zchar[ 255 ] u128 ,@tag( 00)match
+//x
+//	t
+u128
+as zchar { 3 :	tag , [ """ ++ [233]%N ++ runes_of_ascii "t" ++ [233]%N ++ runes_of_ascii """ ]
+: // " ++ [27880; 37322]%N ++ runes_of_ascii "
+int ,
+}
+    ,
+    @leftPad	( ) zchar[7 ]
+    zchar
+@lengthOf(
+lengthOf ) , repeat Packet Foo	`a\`  , @lengthOf(
+msg_type
+)@rightPad
+(
+'0' ) @tag(255 ) string
+    tag
+//	t
+//
+@lengthOf(roots // a // b
+)
+    `say ""hi""` , repeat// " ++ [128512]%N ++ runes_of_ascii " emoji
+Logon f32a,}packet uint8x {
+    // trailing space 
+    @rightPad	(' ' )@lengthOf(
+    Header
+)zchar[
+7 ] u ,} // " ++ [128512]%N ++ runes_of_ascii " emoji
+MetaData a1
+    { rootA msg_type ,
+u16
+    /// triple
+    lengthOf `it's`,f32
+u8x
+, }
+    // c
+    packet	trueish {}")).
+Eval vm_compute in ("<<<M3803>>>" ++ check (runes_of_ascii "root packet As {
+    repeat x msg_type,
+}
+
+MetaData crc {
+    // c
+    u8 x,
+}
+
+root packet Logon {
+    @calculatedFrom(""1"")
+    @rightPad(' ')
+    @leftPad()
+    string msg_type @lengthOf(uint8x) `a\`,
+    match calculatedFrom as i8i8 {
+        [""\" ++ [233]%N ++ runes_of_ascii """] : options1,
+        // c
+        1 : asx,
+        [42, 42, """ ++ [28040; 24687]%N ++ runes_of_ascii """, """", 7] : x_y_z,
+        [0] : asx,
+        //
+        7 : u8x,
+        [7] : u,
+    },
+}
+
+MetaData repeatCount {
+    float Foo,
+    As i8i8,
+}
+
+packet tag {
+    @leftPad(' ')
+    match Z9_ as msg_type {
+        //
+        [
+            10, ""a\""b"", 0, 255, 7,
+            0123456789, 10
+        ] : Logon,
+        """ ++ [233]%N ++ runes_of_ascii "t" ++ [233]%N ++ runes_of_ascii """ : a1,
+        7 : i64_,
+        255 : leftPad,
+    },
+}")).
+Eval vm_compute in ("<<<M164>>>" ++ check (runes_of_ascii "MetaData
+Packet {
+    float	Pad ,u32 // " ++ [128512]%N ++ runes_of_ascii " emoji
+Foo `it's`
+    ,uint16 stringy
+    , } packet
+    stringy // @lengthOf(
+{ @lengthOf(
+    chars
+) repeat f32 pack ,  @lengthOf(
+rootA
+)
+    // @lengthOf(
+    @calculatedFrom( ""CRC32""  ) char[] MetaDataX
+    // a // b
+    `" ++ [28040; 24687; 31867; 22411]%N ++ runes_of_ascii "` , @tag( 4294967296
+    ) len	@calculatedFrom(""a	b"")
+,
+} packet
+stringy { f32 leftPad/// triple
+,
+stringy { int	@calculatedFrom(""1"" ) `" ++ [233]%N ++ runes_of_ascii "`,	char[] o, zchar[ 0123456789  ]
+    matchKey @lengthOf(	lengthOf )
+`two words`
+, }
+,
+@leftPad ('\x00'
+) @lengthOf(
+// " ++ [128512]%N ++ runes_of_ascii " emoji
+/// triple
+falsey) repeat string falsey
+    `// not a comment` // trailing space 
+, //	t
+string Pad
+    , }
+
+")).
+Eval vm_compute in ("<<<M405>>>" ++ check (runes_of_ascii "options { options1 =
+0 } packet _x { @tag( 3
+    // trailing space 
+    )
+@lengthOf( packetx
+)repeat
+    zchar[ 255] roots,}	packet  Logon{ f64
+float ,
+matchKey	,
+    f32a//
+Pad
+    `" ++ [233]%N ++ runes_of_ascii "` ,
+    // `tick` ""quote"" 'q'
+    @calculatedFrom( ""packet"" ) match u128 as
+Pad{
+    [// " ++ [27880; 37322]%N ++ runes_of_ascii "
+00 ,""CRC32"" ]
+    : msg_type
+65535
+:	stringy , [
+""abc"" //	t
+,00, """ ++ [233]%N ++ runes_of_ascii "t" ++ [233]%N ++ runes_of_ascii """ , ""// no comment""
+    , // trailing space 
+0
+,""// no comment""
+    , ""1"" ]
+    : matchKey [ ""it's"" ,0] : A } , zchar[ 3] //x
+uint8x , } options { _x = ' ' rootA = //x
+char[] uint8x= //	t
+""a	b"" ;
+body= char[]
+    // trailing space 
+    }
+    root
+packet
+    len  { }
+")).
+Eval vm_compute in ("<<<M1070>>>" ++ check (runes_of_ascii "options { packetx=  ""a\\""
+    //	t
+    x_y_z	=// " ++ [128512]%N ++ runes_of_ascii " emoji
+false ;
+    len
+    //x
+    = """ ++ [233]%N ++ runes_of_ascii "t" ++ [233]%N ++ runes_of_ascii """u =
+    ""x y"" }MetaData Foo
+    { uint8x
+    /// triple
+    Z9_ // c
+`
+`
+,options1 msg_type ,string_ // @lengthOf(
+trueish
+`
+` , metadata /// triple
+rootA`two words`
+    //
+    , } root packet Foo { repeat
+trueish {
+match A as options1 { ""packet""
+: int , }
+    ,
+zchar[ 007]	u8x @calculatedFrom( """ ++ [233]%N ++ runes_of_ascii "t" ++ [233]%N ++ runes_of_ascii """ ) , msg_type float `" ++ [28040; 24687; 31867; 22411]%N ++ runes_of_ascii "` , match string_ as  charz // a // b
+{10
+: zchar ,
+    [ 0	, 007, 10 ,65535 ,1 , ""x y""
+    ,""" ++ [233]%N ++ runes_of_ascii "t" ++ [233]%N ++ runes_of_ascii """ ]// `tick` ""quote"" 'q'
+: u  ,
+1: u128
+//x
+//
+,3: int,	} , }
+    ,
+    } 	 ")).
+Eval vm_compute in ("<<<M4439>>>" ++ check (runes_of_ascii "MetaData i8i8 {
+    char[0123456789] body `doc`,// c
+}
+
+packet uint8x {
+    pack {
+        char u `crlf
+                line`,
+        float,
+        zchar[007] A,
+    },
+    char[] calculatedFrom `
+        `,
+    char[42] matchKey @calculatedFrom(""a\\"") ``,
+}
+
+root packet int {
+    @rightPad('0')
+    Pad {
+        match zchar as asx {
+            [""a	b"", 42] : Logon,
+            //
+        },
+        Packet {
+            zchar[4294967296] A,
+        },
+        match x as float {
+            ""x y"" : o,
+            1 : calculatedFrom,
+        },
+    },
+}
+//")).
+Eval vm_compute in ("<<<M4379>>>" ++ check (runes_of_ascii "MetaData i64_ {
+    int rootA,
+    char[0] A `{ , }`,
+    u128 rootA `doc`,// @lengthOf(
+    zchar[42] i8i8 `it's`,
+    /// triple
+    char[00] u,
+    zchar[0123456789] A `line1
+    line2`,
+}
+
+packet Z9_ {
+    @lengthOf(pack)
+    @calculatedFrom(""a\\"")
+    BodyLength @calculatedFrom(""\" ++ [233]%N ++ runes_of_ascii """),
+    @rightPad()
+    @tag(1)
+    @lengthOf(i8i8)
+    char[] trueish,
+    f32a @calculatedFrom(""" ++ [28040; 24687]%N ++ runes_of_ascii """) `u8 x,`,
+    @tag(65535)
+    string trueish,
+}
+
+packet BodyLength {
+    stringy @lengthOf(Z9_),
+    char[007] metadata @calculatedFrom("""") `" ++ [233]%N ++ runes_of_ascii "`,
+}")).
+Eval vm_compute in ("<<<M802>>>" ++ check (runes_of_ascii "packet Logon // `tick` ""quote"" 'q'
+{
+    @rightPad
+()
+repeat
+Z9_ , match i64_
+//x
+// @lengthOf(
+as len { 65535
+// " ++ [27880; 37322]%N ++ runes_of_ascii "
 // @lengthOf(
 :
-trueish
-,}
-    , roots@calculatedFrom( // @lengthOf(
-""" ++ [233]%N ++ runes_of_ascii "t" ++ [233]%N ++ runes_of_ascii """), BodyLength `" ++ [233]%N ++ runes_of_ascii "` , repeat  int zchar //
-`
-` , @leftPad () body @calculatedFrom(
-    // packet A { u8 x, }
-    """ ++ [233]%N ++ runes_of_ascii "t" ++ [233]%N ++ runes_of_ascii """	),}
-    packet // a // b
-Packet { @lengthOf(
-    uint8x
-    )
+    MetaDataX
+, """ ++ [128512]%N ++ runes_of_ascii """: u128 , """ ++ [28040; 24687]%N ++ runes_of_ascii """ :lengthOf
+""a	b"" : o , [
+    255 // c
+]  : As , [""\n""] :
+// @lengthOf(
+// trailing space 
+o, } ,	@tag(
+//	t
+// trailing space 
+42)
+@tag( 1 ) //	t
+string_ @calculatedFrom( ""1"" ) ,
+    } root packet
+matchKey
+{ repeat u32
+MetaDataX ,
+    float32
+As	@lengthOf(
+charz	),
+a1 repeatCount `
+`	, } packet
+    msg_type
+    // trailing space 
+    {
+    }")).
+Eval vm_compute in ("<<<M1190>>>" ++ check (runes_of_ascii "packet metadata {	@tag( 7 ) body { u8x As
     // @lengthOf(
-    i64_
-    { u128	{
-    stringy , }
-,  }, T MetaDataX
-`u8 x,`
-    , @calculatedFrom("""" ) @lengthOf( // @lengthOf(
-x_y_z )
-    @calculatedFrom( ""1"" ) uint32 charz@calculatedFrom(""`tick`""	) `" ++ [233]%N ++ runes_of_ascii "`
-,
-    // @lengthOf(
-    string
-    u8x	@calculatedFrom( ""\" ++ [233]%N ++ runes_of_ascii """ ) `line1
-line2` //
-,@leftPad (
-    )
-string tag @lengthOf(
-f32a ) `" ++ [233]%N ++ runes_of_ascii "`,@rightPad ( ) @tag(7)  @lengthOf(
-    rootA
-)
-    // " ++ [128512]%N ++ runes_of_ascii " emoji
-    repeat T matchKey , @lengthOf( metadata) zchar[
-    10 ] _x @lengthOf( a1 // a // b
-) , @leftPad(
-) f32a o `{ , }`
-    ,
-}
-// packet A { u8 x, }
-")).
-Eval vm_compute in ("<<<M4580>>>" ++ check (runes_of_ascii "MetaData asx {
-    Packet i64_,
-    zchar[0] stringy,
-    A tag,
-}
-
-options {
-}
-
-root packet metadata {
-    repeat x_y_z matchKey,
-    repeat char[] x_y_z `crlf
-        line`,
-    @lengthOf(As)
-    char[] x_y_z,
-    @tag(00)
-    @calculatedFrom(""" ++ [233]%N ++ runes_of_ascii "t" ++ [233]%N ++ runes_of_ascii """)
-    u8 pack @calculatedFrom(""CRC32""),
-    roots repeatCount,
-    uint8x `two words`,
-}
-
-options {
-    Z9_ = string
-    Z9_ = 0
-    string_ = true;// c
-    crc = i64;
-}
-
-packet packetx {
-    @leftPad('0')
-    @rightPad('0')
-    @lengthOf(stringy)
-    char[] body `" ++ [28040; 24687; 31867; 22411]%N ++ runes_of_ascii "`,// " ++ [27880; 37322]%N ++ runes_of_ascii "
-    match u as Foo {
-        // " ++ [27880; 37322]%N ++ runes_of_ascii "
-        4294967296 : Logon,
-    },
-    match stringy as BodyLength {
-        ""a\\"" : chars,
-        4294967296 : Packet,
-        4294967296 : _x,
-        255 : Foo,
-        1 : roots,
-    },
-    @rightPad('0')
-    //x
-    match u8x as f32a {
-        [""x y"", """ ++ [128512]%N ++ runes_of_ascii """, ""`tick`""] : calculatedFrom,
-        ""a\""b"" : packetx,
-        [0] : As,
-        [""" ++ [28040; 24687]%N ++ runes_of_ascii """] : Z9_,
-    },
-    @lengthOf(Logon)
-    match chars as len {
-        [3, ""a\\""] : string_,
-        [""it's"", ""a\\""] : len,
-        [3, ""\n"", """ ++ [28040; 24687]%N ++ runes_of_ascii """] : rootA,
-        10 : msg_type,
-    },
-    char[] chars @lengthOf(trueish) `
-        `,//
-    @tag(0)
-    repeat zchar[7] A,
-    char[7] rootA,
-}")).
-Eval vm_compute in ("<<<M969>>>" ++ check (runes_of_ascii "root packet
-stringy {
-int8 As @lengthOf( trueish ) ,}
-packet
-string_ {
-stringy
-`crlf
-line`
-,uint16
-    metadata
-    // `tick` ""quote"" 'q'
-    ,  @tag( 4294967296
-    // `tick` ""quote"" 'q'
-    ) @tag( 255)
-f32a u	`doc`  ,
-    //x
-    zchar[ 3 ] Packet ,@leftPad
-(
-    //	t
-    '0')@lengthOf( uint8x  ) zchar[ 0 ]uint8x@lengthOf(
-    // packet A { u8 x, }
-    Pad
-) `two words` ,
-// " ++ [27880; 37322]%N ++ runes_of_ascii "
-// " ++ [128512]%N ++ runes_of_ascii " emoji
-@rightPad
-( '\x00'  ) i8i8 roots ,@tag(
-    007 ) u128	@calculatedFrom( """ ++ [233]%N ++ runes_of_ascii "t" ++ [233]%N ++ runes_of_ascii """ ) `two words`	, string string_ @lengthOf( falsey)
-`a\`
-,match tag as i8i8
-{
-""x y"":
-asx , } ,
-}
-    packet	u8x { } options{
-zchar =
-    f64
-    ;} packet
-    T	{
-@lengthOf( string_
-)
-    crc { metadata // a // b
-charz , char[]uint8x
     `line1
 line2`
     ,
-    uint8 Packet, }
-// a // b
-/// triple
-, metadata @calculatedFrom( ""\" ++ [233]%N ++ runes_of_ascii """ )
-// " ++ [128512]%N ++ runes_of_ascii " emoji
-// " ++ [27880; 37322]%N ++ runes_of_ascii "
-`{ , }` ,
-zchar @calculatedFrom( ""it's"" ) `a\`
-, u64  packetx , match //	t
-u128 as i8i8 { 4294967296 :x_y_z
-// trailing space 
+    match// a // b
+MetaDataX	as float{ 10
+: msg_type 7 : o,}, // " ++ [27880; 37322]%N ++ runes_of_ascii "
+} , _x
+{  repeat falsey	`
+`
+,match
+    x_y_z
+    as Packet {""" ++ [28040; 24687]%N ++ runes_of_ascii """ :u8x	, } ,
+zchar @calculatedFrom( """ ++ [233]%N ++ runes_of_ascii "t" ++ [233]%N ++ runes_of_ascii """ ) , } , // trailing space 
+@lengthOf( stringy )i64_
+@lengthOf( _x )	`` ,/// triple
+}
 //x
-} ,
-int16 float
-,	match chars as
-    Pad
-    { ""packet"" : Packet ,
-}
-    ,
-    matchKey { metadata@lengthOf( Pad )`" ++ [233]%N ++ runes_of_ascii "` ,BodyLength``  , A , } ,
-    // " ++ [27880; 37322]%N ++ runes_of_ascii "
-    } 	 ")).
-Eval vm_compute in ("<<<M3986>>>" ++ check (runes_of_ascii "root packet x_y_z {
-    match Z9_ as u {
-        255 : pack,
-        255 : u128,
-        007 : float,
-        ""\n"" : options1,
-        [1, """ ++ [28040; 24687]%N ++ runes_of_ascii """] : Z9_,
-        """ ++ [28040; 24687]%N ++ runes_of_ascii """ : chars,
-    },
-    u8 _x @calculatedFrom(""" ++ [28040; 24687]%N ++ runes_of_ascii """) `say ""hi""`,
-    @tag(3)
-    match a1 as msg_type {
-        [255, 0, ""\n""] : crc,
-    },
-}
-
-root packet o {
-    match tag as _x {
-        007 : x,
-        10 : charz,
-        ""{,}"" : body,
-        """ ++ [233]%N ++ runes_of_ascii "t" ++ [233]%N ++ runes_of_ascii """ : len,
-        """ ++ [128512]%N ++ runes_of_ascii """ : u,
-    },
-    u64 u @calculatedFrom(""x y"") `it's`,
-    @lengthOf(trueish)
-    repeat uint8 u8x `" ++ [28040; 24687; 31867; 22411]%N ++ runes_of_ascii "`,
-    @calculatedFrom(""\n"")
-    @rightPad()
-    @leftPad('\x00')
-    repeat uint32 float,
-    @lengthOf(A)
-    @tag(0123456789)
-    @rightPad(' ')
-    zchar[10] o,
-    uint8x @calculatedFrom(""a\\"") `
-    `,
-    body,
-    repeat char[10] string_ `tab	here`,
-}
-
-root packet roots {
-}
-
-packet u {
-    @calculatedFrom(""" ++ [128512]%N ++ runes_of_ascii """)
-    f64 Logon @calculatedFrom(""1"") `a\`,
-    int16 trueish `line1
-    line2`,//
-    zchar[0123456789] BodyLength `two words`,
-    float32 i8i8 @lengthOf(metadata) `// not a comment`,
-    i32 leftPad,
-}")).
-Eval vm_compute in ("<<<M3991>>>" ++ check (runes_of_ascii "options
-
-{
-
-    LittleEndian=
-    true
-	; StringPrefixLenType=
-
-u16
-;
-    ArrayPrefixLenType
-
-    =
-
-u8;FixedStringPadChar = '0' ;
-}
-
-packet Logout {
-repeat
-i16 
-f1 ,
-string Ref	, @rightPad
-
-( 
-'\x00'	)
-
-char[
-	9
-]	Tail
-, repeat
-char[
-    6  ]Flags  ,  repeat
-
-    char[ 3	]
-Acct
-	,}
-
-    packet
-
-Party { char[
-    2	]
-f1
-    ,	u8  Side2,
-
-@leftPad
-
-    (  ' '  )	char[ 1]
-
-    venue
-,
-}
-
-packet
-
-    Order { repeat i64
-    Ref
-, 
-InPx62
-	{ i32
-
-OrderId ,
-    } ,  InNote53 {
-
-InClordid80
-{char[]Acct
-
-, 
-u32
-Px
-
-    , 
-repeat
-Party 
-,
-    }
-,  InPrice12
-
-{
-
-    u8
-
-pad0,
-    }
-, repeat
-	Logout
-
-    , InFlags23
-{
-	repeat
-
-    string	seqNo, string
-sym
-    ,
-    int8
-	Flags 
-,
-
-    zchar[
-
-5
-	]
-    lastPx
-	,zchar[ 6 
-]
-
-    Px ,
-    },  char[10
-
-]	Acct
-
-    ,
-    InPx18 {
-
-    zchar[2
-
-    ]
-count	,Party
-, }  ,
-
-}	,
-
-    char[ 5  ] Side2 , char[  1]
-
-Acct
-
-,
-
-    }	root packet Ack {
-u32
-Tail
-, repeat char[
-4 ] msgKind	,
-    repeat
-    Logout
-	, } ")).
-Eval vm_compute in ("<<<M4103>>>" ++ check (runes_of_ascii "options {
-
-    LittleEndian
-
-    =true ;  StringPrefixLenType  = 
-u16 ; ArrayPrefixLenType
-	=  u8
-
-    ;
-
-    FixedStringPadChar = '0' ;  }	packet
-Logout {
-
-repeat i16 
-f1	, 
-string  Ref
-,
-
-@rightPad
-(
-	'\x00' )char[
-
-9
-
-]Tail 
-,
-repeat  char[
-6  ]
-    Flags ,
-	repeat
-    char[	3 ] Acct ,
-	}
-    packet 
-Party
-
-{  char[ 2	]	f1
-,	u8
-    Side2
-	,@leftPad (
-' ' )
-    char[1 ] 
-venue
-,}packet
-	Order	{ repeat
-i64 
-Ref ,  InPx62 { i32
-
-OrderId ,}
-
-, 
-InNote53  {
-InClordid80
-	{char[]	Acct	, u32 
-Px ,repeat	Party 
-, } ,InPrice12	{
-
-    u8
-    pad0	,
-}
-
-    ,
-
-    repeat 
-Logout
-
-, InFlags23 {
-repeat
-string seqNo  ,
-    string sym  ,  int8
-    Flags	,
-    zchar[  5
-]
-lastPx
-	, zchar[
-6]
-
-Px
-
-, }
-	,
-
-    char[
-	10
-	]
-	Acct	, InPx18
-	{  zchar[2 ] count
-	, Party
-	, }, }
-
-    ,
-	char[5  ]Side2
-    ,char[
-1 
-]
-
-    Acct
-    , }	root
-packet
-Ack  {
-
-u32
-	Tail
-    ,repeat
-
-char[ 4
-] msgKind
-	,
-    repeat
-    Logout, }")).
-Eval vm_compute in ("<<<M4548>>>" ++ check (runes_of_ascii "root
-
-    packet  // a // b
-  f32a
-{ zchar[ 
-0123456789
-
-] Foo,
-zchar
-@lengthOf(
-
-    a1 )
-	,
-@rightPad  // packet A { u8 x, }
-    ( 
+//x
+packet asx
+    { @leftPad
+    (
+    '\x00' )
+i64	repeatCount
+, @lengthOf( lengthOf//	t
 )
-
-    @tag(	3 
-//
-	)
-
-    match int as  stringy
-{ [  0 ] : chars
-,	0
-
-: i8i8 42: i64_ 
-,
-
-[ 
-      // c
-	// packet A { u8 x, }
-    255
-
-    /// triple
-  // `tick` ""quote"" 'q'
-,7
-    , 
-""1""
-
-, ""a\\""	]
-	: leftPad , 
-""" ++ [233]%N ++ runes_of_ascii "t" ++ [233]%N ++ runes_of_ascii """
-:Header
-    ,
-
-    [	7  ] 
-: repeatCount
-
-,
-} ,  i32	falsey @lengthOf(
-    u128	)
-
-    `two words` , @tag(0 )	char[] 
-
-    // trailing space 
-	// " ++ [27880; 37322]%N ++ runes_of_ascii "
-  	uint8x
-    `{ , }`,// " ++ [128512]%N ++ runes_of_ascii " emoji
-	repeat	MetaDataX {
-
-    string /// triple
-      len	, // `tick` ""quote"" 'q'
-  }
-
-, @leftPad
-	( // a // b
-  '\x00' 
-    //x
-
-	)	zchar[ 0123456789
-
-    ] o , f32 As @calculatedFrom(""a\\"" ) , @lengthOf( 
-string_
-
-)	repeat
-
-    u128	``, pack /// triple
-  {
-crc stringy
-    ,
-
-repeat  string
-    asx
-    ,
-
-    } ,
-
-    } ")).
-Eval vm_compute in ("<<<M3645>>>" ++ check (runes_of_ascii "options {
-    // c1
-FixedStringPadFromLeft
-    // c2
-= // c3
-true ; // c5
-FixedStringPadChar // c6a
-  // c6b
-= // c7a
-  // c7b
-' ' ; // c9a
-  // c9b
-} // c10
-packet
-    // c11
-Reject
-    // c12
-{ // c13
-} packet Fill
-    // c16
-{ // c17
-repeat
-    // c18
-i16 Tail // c20
-, // c21a
-  // c21b
-} // c22
-root // c23a
-  // c23b
-packet // c24a
-  // c24b
-Trade // c25
-{ float64 Ref
-    // c28
-, // c29
-Fill // c30
-, // c31
-u8 Note // c33
-, // c34a
-  // c34b
-u16 count // c36a
-  // c36b
-@lengthOf(
-    // c37
-Body ) // c39
-, // c40a
-  // c40b
-match // c41a
-  // c41b
-Note // c42
-as
-    // c43
-Body {
-    // c45
-[ 98
-    // c47
-, 101 // c49
-]
-    // c50
-:
-    // c51
-Fill , // c53a
-  // c53b
-34 // c54a
-  // c54b
-: Reject // c56
-, // c57a
-  // c57b
-} , u32 x
-    // c61
-@calculatedFrom( // c62
-""CRC32"" ) // c64a
-  // c64b
-, // c65a
-  // c65b
-} // c66
-")).
-Eval vm_compute in ("<<<M977>>>" ++ check (runes_of_ascii "packet
-MetaDataX {zchar[4294967296
-] o @calculatedFrom(
-""" ++ [233]%N ++ runes_of_ascii "t" ++ [233]%N ++ runes_of_ascii """
-// packet A { u8 x, }
-// `tick` ""quote"" 'q'
-) , @tag( 65535 ) @leftPad /// triple
-(' ' )uint16 pack , char[]
-charz  , zchar //
-metadata , match  i64_
-as asx { 0 :BodyLength , [
-""" ++ [28040; 24687]%N ++ runes_of_ascii """ ] :	options1 , ""x y"" :
-    matchKey ,""x y"": msg_type// " ++ [128512]%N ++ runes_of_ascii " emoji
-}, @calculatedFrom(
-""a\\"")match repeatCount as zchar { 007 :// a // b
-crc
-[
-""" ++ [233]%N ++ runes_of_ascii "t" ++ [233]%N ++ runes_of_ascii """
-    ,""" ++ [28040; 24687]%N ++ runes_of_ascii """ , ""it's"" ] : roots , } // a // b
-, char[ 3]falsey `say ""hi""` , @calculatedFrom( ""a	b"") calculatedFrom Header ,repeat
-    tag {stringy@calculatedFrom( ""\n""
-),
-match chars	as x_y_z { //	t
-42 :
-    repeatCount """ ++ [28040; 24687]%N ++ runes_of_ascii """	:pack
-, /// triple
-}
-    ,
-    char[ 3 ]x_y_z@lengthOf(//
-body
-) `two words` ,
-o { repeat zchar[ 00 ] matchKey
-    ,	repeat char[
-1 ]
-repeatCount  `it's` // " ++ [128512]%N ++ runes_of_ascii " emoji
-,} , } , }")).
-Eval vm_compute in ("<<<M940>>>" ++ check (runes_of_ascii "
-root packet As
-{ repeat
-    //	t
-    x
-    msg_type ,}MetaData crc { // c
-u8 x , } root packet
-    // " ++ [128512]%N ++ runes_of_ascii " emoji
-    Logon{ @calculatedFrom(
-""1"" )
-@rightPad (  ' ') @leftPad
-( ) string msg_type @lengthOf(
-uint8x )	`a\`
-, match calculatedFrom
-as i8i8
-{ [
-""\" ++ [233]%N ++ runes_of_ascii """ ]  : options1 , // c
-1
-: asx
-, [ 42,
-42
-    //
-    ,//	t
-""" ++ [28040; 24687]%N ++ runes_of_ascii """// `tick` ""quote"" 'q'
-,"""" ,// " ++ [128512]%N ++ runes_of_ascii " emoji
-7] // @lengthOf(
-: x_y_z,  [// " ++ [27880; 37322]%N ++ runes_of_ascii "
-0//x
-] :
-    // packet A { u8 x, }
-    asx
-    //
-    7:
-    u8x [
-7
-    ] :u , } ,} MetaData repeatCount
-    { float Foo
-    , As //	t
-i8i8	,} packet tag {@leftPad (
-' '
-) match Z9_ as msg_type {
-    //
-    [ 10
-, ""a\""b"" ,0 ,255 , 7 ,0123456789 , 10
-]: Logon ,
-    """ ++ [233]%N ++ runes_of_ascii "t" ++ [233]%N ++ runes_of_ascii """: a1 , 7
-// packet A { u8 x, }
-/// triple
-: i64_  ,  255
-:	leftPad
-    }
-    , }
-")).
-Eval vm_compute in ("<<<M201>>>" ++ check (runes_of_ascii "packet _x{
-    u ,@lengthOf( len)
-    match f32a as
-    Pad{""packet"": metadata,
-""CRC32"":x_y_z[ ""abc"" , ""{,}"" ] : Logon , }
-    // c
-    , zchar[ 7  ]	a1  ,
-    @tag( 65535 ) @tag(
-0123456789
-    )
-    //x
-    @lengthOf(
-asx ) repeat
-i16 // @lengthOf(
-tag `{ , }` // `tick` ""quote"" 'q'
-,
-    @leftPad	(
-'\x00' ) match i64_ as x { 0 :crc , [
-//	t
-// trailing space 
-""// no comment"" ] : uint8x ,
-    42
-// a // b
-// trailing space 
-:  string_	, 007 : trueish , [10 ]// " ++ [128512]%N ++ runes_of_ascii " emoji
-: rootA
-""" ++ [28040; 24687]%N ++ runes_of_ascii """
-    : // trailing space 
-len , } //
-, @rightPad (
-'\x00' // trailing space 
-) @tag(
-    //
-    00 ) @calculatedFrom( """ ++ [233]%N ++ runes_of_ascii "t" ++ [233]%N ++ runes_of_ascii """ ) // c
-char[]float
-@calculatedFrom(	""\n"" ),repeat f32 trueish `crlf
-line` ,} // @lengthOf(")).
-Eval vm_compute in ("<<<M1298>>>" ++ check (runes_of_ascii "MetaData
-    Foo	{  }	packet x_y_z  {	a1
-    u8x, /// triple
-x
-`it's`
-    ,} packet
-    Foo
-{
-@lengthOf(
-    o) T @calculatedFrom( """ ++ [28040; 24687]%N ++ runes_of_ascii """ ) `two words`  ,
-@lengthOf( i8i8 ) repeat metadata{u
-{ repeat char[ 0
-]// trailing space 
-string_ ``, repeat
-body {
-    //
-    zchar[	0123456789	]
-Pad
-    ,
-    match
-Pad as matchKey{
-00
-:_x
-, [
-    65535 , 7 , 10 , 3// `tick` ""quote"" 'q'
-,// trailing space 
-""" ++ [128512]%N ++ runes_of_ascii """
-, 42
-, ""\" ++ [233]%N ++ runes_of_ascii """ ,""a	b""
-] : i8i8
-    , } ,	int8 charz , match packetx
-    as lengthOf	{
-    [
-    1/// triple
-, 4294967296
-, 1 ] :
-As
-},
-}
-    //
-    , repeat zchar[ 4294967296]_x
-, }, string o `` , }	, Header
-Header
+repeat//	t
+float32 Logon
 // @lengthOf(
-// c
-`u8 x,`
-,charz
-    i8i8 `crlf
-line` ,}")).
-Eval vm_compute in ("<<<M4223>>>" ++ check (runes_of_ascii "  packet BodyLength 
-{
-    repeat
-    f32a  Pad  `// not a comment`, 
-	    // " ++ [128512]%N ++ runes_of_ascii " emoji
-    // c
-
-}
-
-MetaData As {
-} options
-
-    { 
-crc
-    // packet A { u8 x, }
-	=	""a\\"" 
-float
-
-=  '\x00' a1// c
-  	=	' '  ;i8i8=4294967296 } packet
-
-u128	{
-
-    // `tick` ""quote"" 'q'
-  //
-    match 	 //x
-    stringy 
-as	o{ ""`tick`""  :
-
-    Foo
+//
+, }
+")).
+Eval vm_compute in ("<<<M223>>>" ++ check (runes_of_ascii "
+root packet // a // b
+matchKey
+    { @calculatedFrom(
+""// no comment"")match matchKey as crc { 65535:metadata , 255 :options1 , ""{,}"" :asx
 ,
-[
-
-4294967296	]:
-
-    x_y_z  ,	},  zchar[	/// triple
-
-  10  ] // `tick` ""quote"" 'q'
-  Packet
-	@lengthOf(u8x )	,
-@lengthOf(
-	roots	)  // " ++ [27880; 37322]%N ++ runes_of_ascii "
-
-x `// not a comment` 
-, 
-i64 asx 
-@lengthOf(
-	rootA  )  , metadata
-,  i64_@calculatedFrom( ""\" ++ [233]%N ++ runes_of_ascii """
+    [ ""\" ++ [233]%N ++ runes_of_ascii """ , 00
+,	""""  , /// triple
+""{,}"" ,
+""a\\"" ]
+    : msg_type , 007: f32a ,//x
+} , @lengthOf(
+repeatCount) @leftPad ()
+    @calculatedFrom(  ""a\\"")float ,@tag( 42 ) u8 crc @calculatedFrom( //
+""" ++ [28040; 24687]%N ++ runes_of_ascii """// " ++ [27880; 37322]%N ++ runes_of_ascii "
 )
-    ,
-
-    @lengthOf( u128	)repeat o `two words` ,} ")).
-Eval vm_compute in ("<<<M4207>>>" ++ check (runes_of_ascii "MetaData As {
+, uint64
+BodyLength @lengthOf( f32a)
+    `" ++ [28040; 24687; 31867; 22411]%N ++ runes_of_ascii "` , tag a1 ,
+tag @calculatedFrom( ""`tick`""
+), } // trailing space ")).
+Eval vm_compute in ("<<<M890>>>" ++ check (runes_of_ascii "
+MetaData
+    //	t
+    u { int8 body
+,
+    string Packet ,} options // `tick` ""quote"" 'q'
+{
+    matchKey =float64
+;
 }
+packet roots	{ // " ++ [128512]%N ++ runes_of_ascii " emoji
+@calculatedFrom(	""abc"")
+match MetaDataX
+// " ++ [27880; 37322]%N ++ runes_of_ascii "
+// c
+as // " ++ [27880; 37322]%N ++ runes_of_ascii "
+_x
+    { 007
+    : o[ 42  , ""x y""
+, 65535 , 1 ,
+65535
+    ,""a	b""	,4294967296 ,
+00 ]:f32a ""CRC32"" : repeatCount  , ""CRC32"" :u128 ,	} ,} options { } MetaData uint8x
+{
+char[] u128 , body
+crc  `
+`,
+    lengthOf rootA ,// " ++ [128512]%N ++ runes_of_ascii " emoji
+i8 crc
+, }
 
-packet float {
+")).
+Eval vm_compute in ("<<<M4152>>>" ++ check (runes_of_ascii "
+MetaData T{
+Foo	lengthOf
+	,
+
+    string  
+  //x
+	packetx
+    `// not a comment`, zchar[
+	//	t
+      0]  metadata 
+    //x
+
+  // `tick` ""quote"" 'q'
+	  `crlf
+line` ,
+x string_ 
+`line1
+line2`
+,
+} packet 
+repeatCount{ char[	// `tick` ""quote"" 'q'
+    255]
+    A  @calculatedFrom(
+
+    ""a\\"" ) , float32	BodyLength@lengthOf(
+_x
+
+)
+
+// c
+	//
+	`doc`
+
+,
+	char[] trueish
+
+    // " ++ [128512]%N ++ runes_of_ascii " emoji
+	@calculatedFrom(	""packet"")
+    , }
+
+")).
+Eval vm_compute in ("<<<M1301>>>" ++ check (runes_of_ascii "root	packet	u
+{ uint8x
     // @lengthOf(
-    options1 Pad `// not a comment`,
-    uint16 As `line1
-        line2`,
-    float32 stringy @calculatedFrom(""`tick`"") `" ++ [233]%N ++ runes_of_ascii "`,
-    repeat Packet {
-        zchar[3] T @calculatedFrom(""x y""),
-        char[7] asx @lengthOf(tag),
-        //
-        int64 charz `u8 x,`,
-    },
-    uint32 len,
-    @tag(0123456789)
-    Foo packetx `// not a comment`,
-    char[] trueish @lengthOf(rootA),
-    @leftPad('0')
-    repeat x_y_z `{ , }`,
-    i64 u128,
+    falsey
+, repeat char[ 0
+    ]
+o`u8 x,`  , @rightPad (
+'\x00')
+match leftPad
+    as
+    u { 7
+:crc
+, [""`tick`""
+,0123456789
+    ] :
+Packet ,
+    [ 42 ] : msg_type, 3 :
+    tag ,
+    } ,/// triple
+@calculatedFrom(
+""1"" )	char[ 1	] leftPad , } packet // " ++ [27880; 37322]%N ++ runes_of_ascii "
+o{ char[] falsey ,
+repeat
+i8
+//
+// " ++ [128512]%N ++ runes_of_ascii " emoji
+f32a `tab	here` ,
+float64 pack @calculatedFrom(
+    ""\" ++ [233]%N ++ runes_of_ascii """
+    ) , }
+")).
+Eval vm_compute in ("<<<M3865>>>" ++ check (runes_of_ascii "MetaData o {
+    i16 len,
 }
 
 packet msg_type {
-    char[] i8i8 `doc`,
-    string trueish @calculatedFrom(""""),
-    char[7] string_ `say ""hi""`,
-}")).
-Eval vm_compute in ("<<<M279>>>" ++ check (runes_of_ascii "
-MetaData matchKey { i16
-lengthOf, int16
-    asx `it's`
-    ,
-    chars metadata `
-` , char[ 00 ] u128 ,// " ++ [128512]%N ++ runes_of_ascii " emoji
-zchar[ 007 ] falsey
-,  uint64 packetx
-, }
-    packet string_
-    {
-}root
-packet stringy{u64 packetx	@lengthOf( falsey // @lengthOf(
-) `crlf
-line` , falsey options1
-    , repeat char[] calculatedFrom , @rightPad ( '\x00' )
-i64 // c
-charz
-    @lengthOf(
-    x_y_z )
-    `u8 x,`,
-// @lengthOf(
-//x
-@lengthOf( rootA )char[] BodyLength `it's`
-, msg_type@calculatedFrom( // trailing space 
-""packet"") ,
-    // " ++ [27880; 37322]%N ++ runes_of_ascii "
-    lengthOf {zchar[
-65535	]tag
-`
-`
-    , }
-    , } 	 ")).
-Eval vm_compute in ("<<<M4268>>>" ++ check (runes_of_ascii "options
-
-{ packetx
-='\x00'
-o = 
-// `tick` ""quote"" 'q'
-
-""abc""  lengthOf // @lengthOf(
-    =  255
-
-zchar	=  """ ++ [128512]%N ++ runes_of_ascii """Pad	// packet A { u8 x, }
-  = string 
-;
-	}
-root 
-packet
-options1	//x
-		{
-calculatedFrom	o ,
-	x @lengthOf(leftPad// " ++ [128512]%N ++ runes_of_ascii " emoji
-	)	,	match
-
-_x
-
-as stringy 
-{3
-    :
-
-i8i8
-	,
-
-}, 
-string T
-	,
-
-} 
-root
-packet uint8x
-
-{
-	len 
-/// triple
-		// a // b
-    ``
-
-    ,} packet
-matchKey
-{ match
-calculatedFrom as
-	    // " ++ [27880; 37322]%N ++ runes_of_ascii "
-    Packet
-{ [ """ ++ [28040; 24687]%N ++ runes_of_ascii """ 
-,	""packet"" //
-    	] : // packet A { u8 x, }
-rootA
-	, }
-    , } options
-{
-	uint8x 
-=  false  ; }
-")).
-Eval vm_compute in ("<<<M1106>>>" ++ check (runes_of_ascii "packet string_  {
-BodyLength u128 ,
-}	MetaData
-matchKey
-{}
-packet f32a
-{
-    repeat uint32
-// trailing space 
-// `tick` ""quote"" 'q'
-matchKey
-,}
-    root packet trueish // `tick` ""quote"" 'q'
-{ leftPad
-    {match BodyLength as i8i8{255 : metadata
-""CRC32"" // `tick` ""quote"" 'q'
-: metadata ,
-""packet"" : a1 } ,}, } packet
-    asx { leftPad
-//	t
-// packet A { u8 x, }
-{
-    // `tick` ""quote"" 'q'
-    char[	10 ]options1	, char[ 4294967296
-    ]
-//	t
-//
-Packet	`a\` ,
-o `{ , }` , Z9_ {
-match Foo as	T
-    { 3 :
-a1 ,
-} , } ,} ,}
-")).
-Eval vm_compute in ("<<<M426>>>" ++ check (runes_of_ascii "
-options {x= ""abc"" ; } root packet calculatedFrom {// trailing space 
-@tag( 1 )match	x_y_z
-    as int //	t
-{[ ""it's"" ] :
-    uint8x ,  4294967296 : i64_ , ""x y"": // `tick` ""quote"" 'q'
-BodyLength , ""x y"" : u8x, }  ,
-    @tag(007)@tag( 7)
-    // " ++ [27880; 37322]%N ++ runes_of_ascii "
-    @lengthOf( x_y_z )
-    u64 crc, @calculatedFrom( ""CRC32"" ) u64 chars @calculatedFrom(// " ++ [27880; 37322]%N ++ runes_of_ascii "
-""// no comment""
-    ) ,@rightPad
-// c
-//x
-( ) zchar[ 10 ] lengthOf ,
-char[ 65535	] u128
-    // c
-    ,}
-options { falsey = true ; } packet
-BodyLength
-    {}")).
-Eval vm_compute in ("<<<M4234>>>" ++ check (runes_of_ascii "packet float {
-    @leftPad(' ')
-    repeat metadata falsey,
-    lengthOf matchKey,
-    int32 roots,
-    int16 Pad @calculatedFrom(""\" ++ [233]%N ++ runes_of_ascii """),// a // b
-    lengthOf @calculatedFrom(""`tick`"") `" ++ [28040; 24687; 31867; 22411]%N ++ runes_of_ascii "`,
-    @lengthOf(metadata)
-    i8i8,
-    @rightPad('0')
-    Foo,
-    @tag(10)
-    chars `
-        `,
-    @tag(7)
-    @leftPad()
-    repeat zchar[255] u128,// c
+    chars roots,// trailing space 
+    repeat char[0] packetx `{ , }`,
+    @rightPad('\x00')
+    // @lengthOf(
+    repeat i64 x,
+    match packetx as packetx {
+        65535 : x,
+        [""\n"", 3] : Logon,
+    },
+    BodyLength @calculatedFrom(""{,}""),
+    repeat pack Z9_,
+    x i8i8,
 }
 
 options {
-    //	t
-    msg_type = 0;// @lengthOf(
-    u = ' '
-    x_y_z = 65535
-    u128 = char[];
-    zchar = zchar[3];
+    int = ""abc"";
+    u = ""abc""
+    int = '0';
 }")).
-Eval vm_compute in ("<<<M592>>>" ++ check (runes_of_ascii "// " ++ [128512]%N ++ runes_of_ascii " emoji
-packet int
-    { }options { string_=true
-Z9_ = //
-'\x00'
-    ; uint8x
-    = false}
-packet body
-{ int16
-Foo ,
-repeat	string
-roots `
-`
-// " ++ [128512]%N ++ runes_of_ascii " emoji
-//
-,//	t
-stringy a1
-    `tab	here` ,int8
-    repeatCount , @lengthOf(chars )
-    match
-    _x as repeatCount{""CRC32"" :
-f32a ,
-    [
-    // packet A { u8 x, }
-    0123456789 ,""it's"" ]:
-    Logon
-    , [""// no comment"" ,10
-, ""a\""b"" ]	:trueish
-, [ 0 ]: trueish , 0
-: BodyLength, },
-    } /// triple")).
-Eval vm_compute in ("<<<M680>>>" ++ check (runes_of_ascii "packet len { @tag( 4294967296 ) repeat f32 a1 `" ++ [28040; 24687; 31867; 22411]%N ++ runes_of_ascii "`
-    ,
-uint8x
-`
-`
-//
-//	t
-,} root packet rootA
-    { match crc
-    as // packet A { u8 x, }
-i8i8 // c
-{ ""a\""b"" : _x
-00 :
-Packet , ""// no comment"" : MetaDataX , // c
-[  """ ++ [28040; 24687]%N ++ runes_of_ascii """//x
-, 007 ] : MetaDataX 42:  charz , [ """ ++ [233]%N ++ runes_of_ascii "t" ++ [233]%N ++ runes_of_ascii """	, // a // b
-""abc"" ]: _x, } , uint16 Logon, @leftPad
-    (
-' ' ) // packet A { u8 x, }
-@leftPad
-( // " ++ [27880; 37322]%N ++ runes_of_ascii "
-' ' ) uint8  stringy @lengthOf(
-    msg_type ) `
-`
-    , }")).
-Eval vm_compute in ("<<<M1313>>>" ++ check (runes_of_ascii "packet options1{match string_
-as// packet A { u8 x, }
-i8i8 {
-    10 :
-a1 , ""a\""b"" :
-    x_y_z ""abc"" :
-charz
-""" ++ [28040; 24687]%N ++ runes_of_ascii """
-    : //
-repeatCount, ""\" ++ [233]%N ++ runes_of_ascii """  : u8x, } ,@lengthOf( Foo// @lengthOf(
-)repeat x_y_z {  repeat u32
-BodyLength
+Eval vm_compute in ("<<<M4132>>>" ++ check (runes_of_ascii "packet x_y_z {
+    @tag(1)
+    A @calculatedFrom(""a\""b""),
+    match Pad as lengthOf {
+        007 : u128,
+    },
+    match chars as roots {
+        1 : roots,
+        [1] : A,
+        // " ++ [27880; 37322]%N ++ runes_of_ascii "
+        ""a	b"" : roots,
+        [""abc"", 0] : u128,
+    },
+    repeat i64 i8i8,
+    @calculatedFrom(""" ++ [233]%N ++ runes_of_ascii "t" ++ [233]%N ++ runes_of_ascii """)
+    BodyLength,
+    @tag(255)
+    string u8x,
+    BodyLength options1 `
+    `,
+}")).
+Eval vm_compute in ("<<<M797>>>" ++ check (runes_of_ascii "packet lengthOf {
+    @lengthOf( zchar//x
+)char[]// trailing space 
+metadata  , @tag(
+10 ) string leftPad
 ,
-    } ,match Foo
-    as
-msg_type
-{ 42
-:Pad [ 0
-    , """ ++ [28040; 24687]%N ++ runes_of_ascii """] : MetaDataX ,	""1"" :
-    // `tick` ""quote"" 'q'
-    float
-""x y"" // @lengthOf(
-: msg_type
+@lengthOf(i8i8  )//
+@leftPad
     //x
-    , 4294967296:len} , float `" ++ [28040; 24687; 31867; 22411]%N ++ runes_of_ascii "`, }
-")).
-Eval vm_compute in ("<<<M715>>>" ++ check (runes_of_ascii "MetaData  len{
-}
-packet BodyLength{ char[
-42
-    ]A@calculatedFrom(""// no comment"" ) `crlf
-line`// a // b
-,  match //
-Header as calculatedFrom {
-/// triple
-// packet A { u8 x, }
-""`tick`"" :
-//x
-//	t
-o
+    (
+'\x00')
+    repeat Packet `a\`
+, options1 { float
+@calculatedFrom( ""it's""), repeat
+    calculatedFrom
+    i64_	,	}
+, uint8 A @lengthOf( leftPad
+) `two words`
 ,
-// packet A { u8 x, }
+} MetaData repeatCount { }MetaData u8x
+{}
+")).
+Eval vm_compute in ("<<<M4533>>>" ++ check (runes_of_ascii "packet f32a {
+}
+
+packet metadata {
+    @calculatedFrom(""\" ++ [233]%N ++ runes_of_ascii """)
+    repeat _x {
+        string falsey,
+    },
+    @calculatedFrom(""it's"")
+    As leftPad `a\`,
+    @calculatedFrom(""abc"")
+    char[0] roots,
+    @tag(00)
+    match Pad as roots {
+        10 : x_y_z,
+        00 : len,
+        [""// no comment""] : T,
+    },
+    a1 Header `" ++ [233]%N ++ runes_of_ascii "`,// " ++ [27880; 37322]%N ++ runes_of_ascii "
+}")).
+Eval vm_compute in ("<<<M1067>>>" ++ check (runes_of_ascii "packet f32a{char[
+    0123456789 ] matchKey `u8 x,` , @tag( 7 ) zchar[
+    //x
+    00
+// trailing space 
+// a // b
+] _x
+, } packet repeatCount {@calculatedFrom( ""CRC32""
+    )@lengthOf(f32a)@leftPad('0'
+// trailing space 
+//
+) match // trailing space 
+body
+// `tick` ""quote"" 'q'
+// " ++ [27880; 37322]%N ++ runes_of_ascii "
+as
+    int{ [ """" , 1
+] :
+    string_, } ,}
+")).
+Eval vm_compute in ("<<<M1893>>>" ++ check (runes_of_ascii "MetaData
+    u { }  options {
 // c
-},
-repeat packetx , }packet u { }packet
-x_y_z { @lengthOf( repeatCount
-    ) // trailing space 
-char[] charz @calculatedFrom(
-""it's"" ) `doc` , } packet	calculatedFrom {}
-")).
-Eval vm_compute in ("<<<M683>>>" ++ check (runes_of_ascii "MetaData float { u8 Packet
-    ,
-    string i64_ `" ++ [28040; 24687; 31867; 22411]%N ++ runes_of_ascii "`
-, charz pack , char
-rootA ,char[0123456789 ] msg_type ,
-    uint8 calculatedFrom , } packet	Pad
-    { }
-    root packet len{ // c
-matchKey
-    @calculatedFrom(""a\""b""
-    ) `u8 x,`
-, //x
-@leftPad
-    ( ) match roots as u128{ [  4294967296
-    // packet A { u8 x, }
-    , 007] :body , } , charz ,
+// @lengthOf(
+float zchar[ int8 ;rootA =false ; As =	int16 // `tick` ""quote"" 'q'
+repeatCount
     // trailing space 
-    }")).
-Eval vm_compute in ("<<<M3646>>>" ++ check (runes_of_ascii "options {
-FixedStringPadFromLeft	=
-true
-;FixedStringPadChar
-=
-
-    ' ' ; }
-packet 
-Reject{	}	packet
-	Fill{ repeat  i16
-
-Tail ,
-    } root
-packet
-
-    Trade
-{  float64 Ref
-, Fill
-
-,	u8
-Note,
-u16 count @lengthOf(Body),
-	match Note
-	as	Body
-
-{ [
-98,
-	101
-]
-: Fill, 
-34
-
-    :
-Reject  ,	}
-
-    ,u32
-x @calculatedFrom(
-
-    ""CRC32"" )
-    ,
-    } ")).
-Eval vm_compute in ("<<<M170>>>" ++ check (runes_of_ascii "// " ++ [128512]%N ++ runes_of_ascii " emoji
-packet i64_ { match repeatCount
-as u8x{ // packet A { u8 x, }
-7 : crc , },repeat uint32 roots ,
-} packet options1{ match  MetaDataX as
-chars
-{ ""CRC32""
-    :tag , 00 : lengthOf// a // b
-,	""" ++ [233]%N ++ runes_of_ascii "t" ++ [233]%N ++ runes_of_ascii """ : _x , } , uint16 trueish	,
-char[ 10 ] calculatedFrom	,
-@calculatedFrom( ""a\\""  ) @tag(
-65535 ) @rightPad (	'\x00' ) repeat int32 len , }
+    =
+    int16
+; u8x =
+    //	t
+    '\x00' ; } options	{
+    repeatCount
+= 0
+u128
+    //
+    = false ; i64_
+// trailing space 
+// `tick` ""quote"" 'q'
+= '0' ; //	t
+}
 ")).
-Eval vm_compute in ("<<<M1079>>>" ++ check (runes_of_ascii "packet
-    Packet
-// " ++ [128512]%N ++ runes_of_ascii " emoji
-//	t
-{ @leftPad
-('\x00' )
-    // `tick` ""quote"" 'q'
-    match trueish as Pad { 65535 :Header ,
-00 :// `tick` ""quote"" 'q'
-roots
-    [ """ ++ [233]%N ++ runes_of_ascii "t" ++ [233]%N ++ runes_of_ascii """ ,
-""1"" , ""packet"" , 42 , 0, ""x y""
-    ,
-""" ++ [128512]%N ++ runes_of_ascii """ ,
-""a	b"" ]
-    :
-BodyLength
-, """ ++ [28040; 24687]%N ++ runes_of_ascii """ : Packet ,
-[ """ ++ [128512]%N ++ runes_of_ascii """ ]: body } , } //x
-options
-    // a // b
-    { /// triple
-As = u16 }")).
-Eval vm_compute in ("<<<M1857>>>" ++ check (runes_of_ascii "MetaData MetaData
+Eval vm_compute in ("<<<M1881>>>" ++ check (runes_of_ascii "MetaData
+    u { }  options { {
+// c
+// @lengthOf(
+float = int8 ;rootA =false ; As =	int16 // `tick` ""quote"" 'q'
+repeatCount
+    // trailing space 
+    =
+    int16
+; u8x =
+    //	t
+    '\x00' ; } options	{
+    repeatCount
+= 0
+u128
+    //
+    = false ; i64_
+// trailing space 
+// `tick` ""quote"" 'q'
+= '0' ; //	t
+}
+")).
+Eval vm_compute in ("<<<M1859>>>" ++ check (runes_of_ascii "@rightPad
     u { }  options {
 // c
 // @lengthOf(
@@ -1890,51 +1749,18 @@ u128
 = '0' ; //	t
 }
 ")).
-Eval vm_compute in ("<<<M3561>>>" ++ check (runes_of_ascii "// top
-options // c0a
-  // c0b
-{ // c1a
-  // c1b
-LittleEndian // c2
+Eval vm_compute in ("<<<M1942>>>" ++ check (runes_of_ascii "MetaData
+    u { }  options {
+// c
+// @lengthOf(
+float = int8 ;rootA =false ; As =	int16 // `tick` ""quote"" 'q'
 =
-    // c3
-true
-    // c4
-; // c5
-}
-    // c6
-root
-    // c7
-packet // c8a
-  // c8b
-P // c9
-{ u16 a
-    // c12
-, // c13a
-  // c13b
-u32 Sum // c15
-@calculatedFrom(
-    // c16
-""CRC32"" // c17
-) // c18a
-  // c18b
-, // c19a
-  // c19b
-} // c20a
-  // c20b
-")).
-Eval vm_compute in ("<<<M1981>>>" ++ check (runes_of_ascii "MetaData
-    u { }  options {
-// c
-// @lengthOf(
-float = int8 ;rootA =false ; As =	int16 // `tick` ""quote"" 'q'
-repeatCount
     // trailing space 
-    =
+    repeatCount
     int16
 ; u8x =
     //	t
-    '\x00' ; } } options	{
+    '\x00' ; } options	{
     repeatCount
 = 0
 u128
@@ -1945,30 +1771,8 @@ u128
 = '0' ; //	t
 }
 ")).
-Eval vm_compute in ("<<<M769>>>" ++ check (runes_of_ascii "
-packet i8i8 { match tag
-as  i8i8
-    { """ ++ [28040; 24687]%N ++ runes_of_ascii """ : pack ,
-3
-: rootA , [	1, //	t
-3
-]:falsey, }  ,
-// " ++ [128512]%N ++ runes_of_ascii " emoji
-// trailing space 
-zchar[
-10 ]string_ , // @lengthOf(
-}packet falsey{string chars ,
-uint8x
-,@lengthOf( packetx ) char[]
-Packet, }MetaData a1 {
-chars roots
-    //
-    `crlf
-line` , /// triple
-asx zchar ,}
-")).
-Eval vm_compute in ("<<<M1987>>>" ++ check (runes_of_ascii "MetaData
-    u { }  options {
+Eval vm_compute in ("<<<M1870>>>" ++ check (runes_of_ascii "MetaData
+    u {   options {
 // c
 // @lengthOf(
 float = int8 ;rootA =false ; As =	int16 // `tick` ""quote"" 'q'
@@ -1978,7 +1782,7 @@ repeatCount
     int16
 ; u8x =
     //	t
-    '\x00' ; } {	options
+    '\x00' ; } options	{
     repeatCount
 = 0
 u128
@@ -1989,7 +1793,7 @@ u128
 = '0' ; //	t
 }
 ")).
-Eval vm_compute in ("<<<M1990>>>" ++ check (runes_of_ascii "MetaData
+Eval vm_compute in ("<<<M2056>>>" ++ check (runes_of_ascii "MetaData
     u { }  options {
 // c
 // @lengthOf(
@@ -2000,7 +1804,7 @@ repeatCount
     int16
 ; u8x =
     //	t
-    '\x00' ; } options	
+    '\x00' ; } options	{
     repeatCount
 = 0
 u128
@@ -2008,280 +1812,289 @@ u128
     = false ; i64_
 // trailing space 
 // `tick` ""quote"" 'q'
-= '0' ; //	t
-}
-")).
-Eval vm_compute in ("<<<M1140>>>" ++ check (runes_of_ascii "
-options  {Foo =
-    true // trailing space 
-;}
-    packet
-u128{ @calculatedFrom( ""x y"")  lengthOf@lengthOf(
-msg_type)	`tab	here` ,
-    asx
-x
-, zchar[ 10
-    // c
-    ] i64_ , repeat body ,
-char[255 // @lengthOf(
-]asx@calculatedFrom( """ ++ [128512]%N ++ runes_of_ascii """
-    )
-`crlf
-line`,u128
-    string_ ,
-int { zchar[ 7
-]_x , }  , }")).
-Eval vm_compute in ("<<<M435>>>" ++ check (runes_of_ascii "// " ++ [27880; 37322]%N ++ runes_of_ascii "
-packet// @lengthOf(
-roots {	int64 Packet ,}
-/// triple
-// c
-packet trueish
-    { @calculatedFrom(
-    """" )  msg_type @calculatedFrom(
-    ""a\""b"")  ,
+= '0' ; //	t")).
+Eval vm_compute in ("<<<M1310>>>" ++ check (runes_of_ascii "packet
+    Foo{@calculatedFrom(
+""" ++ [233]%N ++ runes_of_ascii "t" ++ [233]%N ++ runes_of_ascii """ )
+repeatCount stringy, u32 u8x	@calculatedFrom(  ""{,}""
+)
+    `
+`
     // " ++ [27880; 37322]%N ++ runes_of_ascii "
-    u16 trueish
-, f32a	, uint64 //x
-lengthOf
-    @lengthOf( Foo
-) , }options { repeatCount = true ; x = false
-    chars=zchar[ 007]
-;}")).
-Eval vm_compute in ("<<<M836>>>" ++ check (runes_of_ascii "
-packet
-    uint8x { @leftPad( '\x00' ) float32 x_y_z @lengthOf( x ) `a\` ,	int32
-Header,match
-    asx as
-    string_ {"""" :
-    lengthOf, 1 : uint8x , } , repeat /// triple
-a1 { repeat
-zchar[0	] Packet , // trailing space 
-char falsey@calculatedFrom( /// triple
-""1""), }
+    ,
+    repeat	float64 Foo
 ,
-    } // " ++ [128512]%N ++ runes_of_ascii " emoji")).
-Eval vm_compute in ("<<<M4095>>>" ++ check (runes_of_ascii "options {
-    Foo = true;
+char[]T
+    `{ , }` , } packet // a // b
+f32a	{@tag(
+    // a // b
+    007) uint64
+    falsey,
 }
-
-packet u128 {
-    @calculatedFrom(""x y"")
-    lengthOf @lengthOf(msg_type) `tab	here`,
-    asx x,
-    zchar[10] i64_,
-    repeat body,
-    char[255] asx @calculatedFrom(""" ++ [128512]%N ++ runes_of_ascii """) `crlf
-    line`,
-    u128 string_,
-    int {
-        zchar[7] _x,
-    },
-}")).
-Eval vm_compute in ("<<<M702>>>" ++ check (runes_of_ascii "packet float { @leftPad (' '
+MetaData Foo{
+u16
+T ,
+crc tag ,A
+    falsey	`tab	here`,	}
+")).
+Eval vm_compute in ("<<<M425>>>" ++ check (runes_of_ascii "// trailing space 
+packet Packet
+{@calculatedFrom(
+""`tick`""
 )
-@calculatedFrom(// `tick` ""quote"" 'q'
-""a\""b"")@calculatedFrom( ""packet""
-) u32 msg_type
-//
 // a // b
-`" ++ [233]%N ++ runes_of_ascii "`	,
-@tag( 00 ) @rightPad (' ' )
-    repeat chars
-metadata// " ++ [128512]%N ++ runes_of_ascii " emoji
-,@rightPad ('0'	) tag string_	, repeat f64 int `u8 x,`  , }
-// c
-")).
-Eval vm_compute in ("<<<M1540>>>" ++ check (runes_of_ascii "packet
-//	t
+// `tick` ""quote"" 'q'
+repeat rootA  {
+    //
+    repeat int8 u128`
+` , char[
+4294967296
+]A@lengthOf(
+Foo ) , } , repeat i16	leftPad , @lengthOf( // a // b
+x ) float64 float // " ++ [128512]%N ++ runes_of_ascii " emoji
+@lengthOf(roots), } // trailing space ")).
+Eval vm_compute in ("<<<M486>>>" ++ check (runes_of_ascii "options
+    { /// triple
+} MetaData
+    Logon // packet A { u8 x, }
+{ char[ 65535 ] i8i8
+, }
+options
+{ u128
+= f64 options1 = int8;  Packet
+    // " ++ [27880; 37322]%N ++ runes_of_ascii "
+    = true; falsey
+=char[255
+    ] uint8x
+    =uint32
+;	}	MetaData
+//x
 // trailing space 
-_x {
-// packet A { u8 x, }
-// c
-char[
-3
-    ] u8x @lengthOf(
-u8x ) MetaData @calculatedFrom(""" ++ [128512]%N ++ runes_of_ascii """ // @lengthOf(
-)
-i16	Foo
-@lengthOf(	string_
-    )`doc`	, repeat	i64 metadata , @lengthOf( string_
-) i8 // c
-u  `line1
-line2`	,
-}
-")).
-Eval vm_compute in ("<<<M1508>>>" ++ check (runes_of_ascii "packet
-//	t
-// trailing space 
-_x {
-// packet A { u8 x, }
-// c
-char[
-3 3
-    ] u8x @lengthOf(
-u8x ) , @calculatedFrom(""" ++ [128512]%N ++ runes_of_ascii """ // @lengthOf(
-)
-i16	Foo
-@lengthOf(	string_
-    )`doc`	, repeat	i64 metadata , @lengthOf( string_
-) i8 // c
-u  `line1
-line2`	,
-}
-")).
-Eval vm_compute in ("<<<M1666>>>" ++ check (runes_of_ascii "packet
-//	t
-// trailing spa'ce 
-_x {
-// packet A { u8 x, }
-// c
-char[
-3
-    ] u8x @lengthOf(
-u8x ) , @calculatedFrom(""" ++ [128512]%N ++ runes_of_ascii """ // @lengthOf(
-)
-i16	Foo
-@lengthOf(	string_
-    )`doc`	, repeat	i64 metadata , @lengthOf( string_
-) i8 // c
-u  `line1
-line2`	,
-}
-")).
-Eval vm_compute in ("<<<M1594>>>" ++ check (runes_of_ascii "packet
-//	t
-// trailing space 
-_x {
-// packet A { u8 x, }
-// c
-char[
-3
-    ] u8x @lengthOf(
-u8x ) , @calculatedFrom(""" ++ [128512]%N ++ runes_of_ascii """ // @lengthOf(
-)
-i16	Foo
-@lengthOf(	string_
-    )`doc`	, i64	repeat metadata , @lengthOf( string_
-) i8 // c
-u  `line1
-line2`	,
-}
-")).
-Eval vm_compute in ("<<<M1647>>>" ++ check (runes_of_ascii "packet
-//	t
-// trailing space 
-_x {
-// packet A { u8 x, }
-// c
-char[
-3
-    ] u8x @lengthOf(
-u8x ) , @calculatedFrom(""" ++ [128512]%N ++ runes_of_ascii """ // @lengthOf(
-)
-i16	Foo
-@lengthOf(	string_
-    )`doc`	, repeat	i64 metadata , @lengthOf( string_
-) i8 // c
-u  `line1
-line2`	,
-
-")).
-Eval vm_compute in ("<<<M1592>>>" ++ check (runes_of_ascii "packet
-//	t
-// trailing space 
-_x {
-// packet A { u8 x, }
-// c
-char[
-3
-    ] u8x @lengthOf(
-u8x ) , @calculatedFrom(""" ++ [128512]%N ++ runes_of_ascii """ // @lengthOf(
-)
-i16	Foo
-@lengthOf(	string_
-    )`doc`	, 	i64 metadata , @lengthOf( string_
-) i8 // c
-u  `line1
-line2`	,
-}
-")).
-Eval vm_compute in ("<<<M3266>>>" ++ check (runes_of_ascii "// top
-MetaData // c0a
-  // c0b
-float // c1
-{
-    // c2
-float64 // c3
-charz // c4a
-  // c4b
-`
-`
+i64_ {
+} packet BodyLength  { } // a // b")).
+Eval vm_compute in ("<<<M3549>>>" ++ check (runes_of_ascii "packet B { // c2
+u8 a ,
     // c5
-,
-    // c6
-} root // c8
-packet // c9a
-  // c9b
-chars
-    // c10
-{ @rightPad ( '0' // c14
-)
-    // c15
-Foo
-    // c16
-,
-    // c17
-} ")).
-Eval vm_compute in ("<<<M1171>>>" ++ check (runes_of_ascii "root  packet
-msg_type {
-// @lengthOf(
-//	t
-string repeatCount `crlf
-line` , i8	Foo @lengthOf( MetaDataX )
-    , @tag( 10 ) @calculatedFrom(
-    ""abc"" ) @lengthOf( falsey
-    ) repeat stringy pack `doc`,  } options { As =65535}")).
-Eval vm_compute in ("<<<M1072>>>" ++ check (runes_of_ascii "/// triple
-packet trueish{ // packet A { u8 x, }
-repeat int`crlf
-line`
-    ,
-    repeat
-    int32 // c
-o
-, } packet
-    string_ {
-T Logon ,i64_	,
-string_
-, char[ 10
-]zchar@lengthOf(
-    u128/// triple
-)`say ""hi""`
-,
-}")).
-Eval vm_compute in ("<<<M1220>>>" ++ check (runes_of_ascii "MetaData a1 {char[]  repeatCount
-    `it's`, char[  4294967296 // @lengthOf(
-]
-    i8i8// c
-`// not a comment`
-    // packet A { u8 x, }
-    ,
-// @lengthOf(
-/// triple
-float32 zchar , } packet calculatedFrom{ }
-")).
-Eval vm_compute in ("<<<M1845>>>" ++ check (runes_of_ascii "options { trueish = ""`tick`"" ; string_= """ ++ [233]%N ++ runes_of_ascii "t" ++ [233]%N ++ runes_of_ascii """
-    // c
-    } root
-    packet body { stringy @calculatedFrom(
-""a	b"" ) `line1
-line2` , }
-packet Logon {
-    @leftPad(
-    ' ' @tag ) //	t
-u16 string_ `u8 x,` ,
 }
+    // c6
+root // c7
+packet P { u8
+    // c11
+K // c12
+, // c13
+match K as Body
+    // c17
+{ // c18a
+  // c18b
+1 : B // c21
+,
+    // c22
+} ,
+    // c24
+u16 // c25
+L // c26
+@lengthOf(
+    // c27
+Body // c28
+)
+    // c29
+, }
+    // c31
+")).
+Eval vm_compute in ("<<<M3668>>>" ++ check (runes_of_ascii "options {
+    LittleEndian = true;
+}
+packet Sub {
+    u8 a,
+    @calculatedFrom(""CRC16"") u64 SubSum,
+}
+root packet Frame {
+    u16 MsgType,
+    u16 BodyLen @lengthOf(Body),
+    Sub Body,
+    string note,
+    @calculatedFrom(""CRC16"") u64 Checksum,
+    u8 tail,
+}
+")).
+Eval vm_compute in ("<<<M662>>>" ++ check (runes_of_ascii "  packet f32a { } MetaData x {BodyLength zchar , // @lengthOf(
+}  packet metadata{ @tag( 7 ) @lengthOf( uint8x )
+    body{ u8 Z9_ @calculatedFrom( /// triple
+""it's"" ) `u8 x,`
+    // @lengthOf(
+    , }
+, float32 falsey
+@lengthOf( u//	t
+) `line1
+line2` ,}")).
+Eval vm_compute in ("<<<M1608>>>" ++ check (runes_of_ascii "packet
+//	t
+// trailing space 
+_x {
+// packet A { u8 x, }
+// c
+char[
+3
+    ] u8x @lengthOf(
+u8x ) , @calculatedFrom(""" ++ [128512]%N ++ runes_of_ascii """ // @lengthOf(
+)
+i16	Foo
+@lengthOf(	string_
+    )`doc`	, repeat	i64 metadata , , @lengthOf( string_
+) i8 // c
+u  `line1
+line2`	,
+}
+")).
+Eval vm_compute in ("<<<M1499>>>" ++ check (runes_of_ascii "packet
+//	t
+// trailing space 
+_x char[
+// packet A { u8 x, }
+// c
+{
+3
+    ] u8x @lengthOf(
+u8x ) , @calculatedFrom(""" ++ [128512]%N ++ runes_of_ascii """ // @lengthOf(
+)
+i16	Foo
+@lengthOf(	string_
+    )`doc`	, repeat	i64 metadata , @lengthOf( string_
+) i8 // c
+u  `line1
+line2`	,
+}
+")).
+Eval vm_compute in ("<<<M1644>>>" ++ check (runes_of_ascii "packet
+//	t
+// trailing space 
+_x {
+// packet A { u8 x, }
+// c
+char[
+3
+    ] u8x @lengthOf(
+u8x ) , @calculatedFrom(""" ++ [128512]%N ++ runes_of_ascii """ // @lengthOf(
+)
+i16	Foo
+@lengthOf(	string_
+    )`doc`	, repeat	i64 metadata , @lengthOf( string_
+) i8 // c
+u  `line1
+line2`	}
+,
+")).
+Eval vm_compute in ("<<<M1547>>>" ++ check (runes_of_ascii "packet
+//	t
+// trailing space 
+_x {
+// packet A { u8 x, }
+// c
+char[
+3
+    ] u8x @lengthOf(
+u8x ) , @calculatedFrom( // @lengthOf(
+)
+i16	Foo
+@lengthOf(	string_
+    )`doc`	, repeat	i64 metadata , @lengthOf( string_
+) i8 // c
+u  `line1
+line2`	,
+}
+")).
+Eval vm_compute in ("<<<M1615>>>" ++ check (runes_of_ascii "packet
+//	t
+// trailing space 
+_x {
+// packet A { u8 x, }
+// c
+char[
+3
+    ] u8x @lengthOf(
+u8x ) , @calculatedFrom(""" ++ [128512]%N ++ runes_of_ascii """ // @lengthOf(
+)
+i16	Foo
+@lengthOf(	string_
+    )`doc`	, repeat	i64 metadata , [ string_
+) i8 // c
+u  `line1
+line2`	,
+}
+")).
+Eval vm_compute in ("<<<M3792>>>" ++ check (runes_of_ascii "packet metadata {
+    Z9_ @lengthOf(i64_),
+}
+
+packet pack {
+    options1 @lengthOf(asx),
+    @leftPad(' ')
+    @calculatedFrom(""abc"")
+    // `tick` ""quote"" 'q'
+    // trailing space 
+    falsey,// trailing space 
+    char[3] rootA,
+}")).
+Eval vm_compute in ("<<<M3665>>>" ++ check (runes_of_ascii "packet Sub {
+    u8 a,
+    @calculatedFrom(""CRC16"") u16 SubSum,
+}
+root packet Frame {
+    u16 MsgType,
+    u16 BodyLen @lengthOf(Body),
+    Sub Body,
+    string note,
+    @calculatedFrom(""CRC16"") u16 Checksum,
+    u8 tail,
+}
+")).
+Eval vm_compute in ("<<<M4021>>>" ++ check (runes_of_ascii "
+packet
+lengthOf 
+{}packet Z9_ { 
+} packet uint8x {leftPad
+
+    Foo 
+    // `tick` ""quote"" 'q'
+  	`" ++ [233]%N ++ runes_of_ascii "` ,// c
+    	@calculatedFrom(
+    //
+  /// triple
+
+""\n"")@calculatedFrom(""" ++ [128512]%N ++ runes_of_ascii """ ) zchar[ 0123456789
+] metadata
+	,
+}
+")).
+Eval vm_compute in ("<<<M1145>>>" ++ check (runes_of_ascii "MetaData
+calculatedFrom
+{
+    Foo uint8x,o Packet `a\`
+, int8
+Packet
+,
+As calculatedFrom
+, } options  { T
+// trailing space 
+// c
+= u64 ; stringy =/// triple
+f64 ; BodyLength =
+// a // b
+/// triple
+true ; } 	 ")).
+Eval vm_compute in ("<<<M1309>>>" ++ check (runes_of_ascii "MetaData rootA{ }packet BodyLength{repeat
+    int32 falsey`a\`
+, i64
+rootA @lengthOf(
+falsey
+) , } root packet
+x
+    { u64 A  `" ++ [233]%N ++ runes_of_ascii "` ,} packet // @lengthOf(
+BodyLength{}
+    //x
+    options { A
+    =
+""\n"" ; }
 ")).
 Eval vm_compute in ("<<<M1827>>>" ++ check (runes_of_ascii "options { trueish = ""`tick`"" ; string_= """ ++ [233]%N ++ runes_of_ascii "t" ++ [233]%N ++ runes_of_ascii """
     // c
@@ -2319,10 +2132,10 @@ packet Logon {
 u16 string_ `u8 x,` ,
 )
 ")).
-Eval vm_compute in ("<<<M1721>>>" ++ check (runes_of_ascii "options { trueish = ""`tick`"" ; string_= """ ++ [233]%N ++ runes_of_ascii "t" ++ [233]%N ++ runes_of_ascii """
+Eval vm_compute in ("<<<M1731>>>" ++ check (runes_of_ascii "options { trueish = ""`tick`"" ; string_= """ ++ [233]%N ++ runes_of_ascii "t" ++ [233]%N ++ runes_of_ascii """
     // c
-    } 
-    packet body { stringy @calculatedFrom(
+    } root
+    packet  { stringy @calculatedFrom(
 ""a	b"" ) `line1
 line2` , }
 packet Logon {
@@ -2331,41 +2144,31 @@ packet Logon {
 u16 string_ `u8 x,` ,
 }
 ")).
-Eval vm_compute in ("<<<M3998>>>" ++ check (runes_of_ascii "
+Eval vm_compute in ("<<<M776>>>" ++ check (runes_of_ascii "  options // c
+{x_y_z =
+    f64 } // " ++ [27880; 37322]%N ++ runes_of_ascii "
+root
+    packet As {@tag( 255	)string BodyLength ,
+    @leftPad	(
+) match Foo as
+    body {007: i8i8 , 42 :
+metadata
+    , // @lengthOf(
+"""" :
+body, }
+, }
 
-  packet 
-/// triple
-	/// triple
-	As	{ }  MetaData charz { i64
-falsey , A  msg_type
-, char[
-    3]
-
-trueish
-
-    `say ""hi""`
-	,
-    float32  calculatedFrom
-	,
-
-    string i8i8
-
-    ,
-
-}
 ")).
-Eval vm_compute in ("<<<M886>>>" ++ check (runes_of_ascii "packet tag	{ BodyLength
-    // @lengthOf(
-    @lengthOf( options1
-    )
-,} options
-{trueish
-    = ""a\\""	matchKey
-= 0123456789 // trailing space 
-;
-    BodyLength = '\x00' charz = """ ++ [233]%N ++ runes_of_ascii "t" ++ [233]%N ++ runes_of_ascii """
-; }
-")).
+Eval vm_compute in ("<<<M1825>>>" ++ check (runes_of_ascii "options { trueish = ""`tick`"" ; string_= """ ++ [233]%N ++ runes_of_ascii "t" ++ [233]%N ++ runes_of_ascii """
+    // c
+    } root
+    packet body { stringy @calculatedFrom(
+""a	b"" ) `line1
+line2` , }
+packet Logon {
+    @leftPad(
+    ' ' ) //	t
+u16 string_")).
 Eval vm_compute in ("<<<M830>>>" ++ check (runes_of_ascii "
 MetaData u8x {
     i64_ u128`tab	here` ,char[]
@@ -2378,19 +2181,29 @@ rootA //x
     MetaData trueish { float64 asx// c
 , /// triple
 }")).
-Eval vm_compute in ("<<<M3713>>>" ++ check (runes_of_ascii "options {
-    packetx = ' '
-}
+Eval vm_compute in ("<<<M2054>>>" ++ check (runes_of_ascii "MetaData
+    u { }  options {
+// c
+// @lengthOf(
+float = int8 ;rootA =false ; As =	int16 // `tick` ""quote"" 'q'
+repeatCount
+    // trailing space 
+    =
+    int16
+; u8x =
+    ")).
+Eval vm_compute in ("<<<M1112>>>" ++ check (runes_of_ascii "
+packet	Packet {
+    @calculatedFrom(
+    ""1""  )
+uint8x, @leftPad	('\x00'
+    /// triple
+    ) char[] f32a @lengthOf( /// triple
+f32a // packet A { u8 x, }
+) `a\` ,  }
 
-root packet i64_ {
-    string Foo,
-    @tag(3)
-    u128 @calculatedFrom(""\" ++ [233]%N ++ runes_of_ascii """) `
-    `,
-    repeat char[00] Logon,
-    repeat crc lengthOf `a\`,
-}")).
-Eval vm_compute in ("<<<M1586>>>" ++ check (runes_of_ascii "packet
+")).
+Eval vm_compute in ("<<<M1581>>>" ++ check (runes_of_ascii "packet
 //	t
 // trailing space 
 _x {
@@ -2402,478 +2215,511 @@ char[
 u8x ) , @calculatedFrom(""" ++ [128512]%N ++ runes_of_ascii """ // @lengthOf(
 )
 i16	Foo
-@lengthOf(	string_
-    )")).
-Eval vm_compute in ("<<<M2332>>>" ++ check (runes_of_ascii "// c
-packet x { @lengthOf( metadata metadata ) repeat lengthOf
-,a1{
-trueish	,// c
-repeat//	t
-MetaDataX , } , zchar[
-    42	] rootA // `tick` ""quote"" 'q'
-,
-    }
-")).
-Eval vm_compute in ("<<<M2335>>>" ++ check (runes_of_ascii "// c
-packet x { @lengthOf( metadata ) repeat lengthOf
-'\x01',a1{
-trueish	,// c
-repeat//	t
-MetaDataX , } , zchar[
-    42	] rootA // `tick` ""quote"" 'q'
-,
-    }
-")).
-Eval vm_compute in ("<<<M2155>>>" ++ check (runes_of_ascii "options{
-_x
-= true
-} options
-{ o	= /// triple
-false
-    ; chars
-= ""\n"" } root root packet	Pad
-/// triple
-// packet A { u8 x, }
-{	chars
-    // a // b
-    ,}")).
-Eval vm_compute in ("<<<M2085>>>" ++ check (runes_of_ascii "options{
-_x _x
-= true
-} options
-{ o	= /// triple
-false
-    ; chars
-= ""\n"" } root packet	Pad
-/// triple
-// packet A { u8 x, }
-{	chars
-    // a // b
-    ,}")).
-Eval vm_compute in ("<<<M2319>>>" ++ check (runes_of_ascii "// c
-packet x { @lengthOf( metadata ) repeat lengthOf
-,a1{
-trueish	,// c
-MetaDataX//	t
-repeat , } , zchar[
-    42	] rootA // `tick` ""quote"" 'q'
-,
-    }
-")).
-Eval vm_compute in ("<<<M2199>>>" ++ check (runes_of_ascii "options{
-_x
-= true
-} options
-{ o	= /// triple
-false
-    ; chars
-= '""\n"" } root packet	Pad
-/// triple
-// packet A { u8 x, }
-{	chars
-    // a // b
-    ,}")).
-Eval vm_compute in ("<<<M2151>>>" ++ check (runes_of_ascii "options{
-_x
-= true
-} options
-{ o	= /// triple
-false
-    ; chars
-= ""\n"" root } packet	Pad
-/// triple
-// packet A { u8 x, }
-{	chars
-    // a // b
-    ,}")).
-Eval vm_compute in ("<<<M4059>>>" ++ check (runes_of_ascii "packet A {
-    Inner {
-        match k as n {
-            [
-                1, 22, 007, 4, 5,
-                66
-            ] : B,
-        },
-    },
-}")).
-Eval vm_compute in ("<<<M2394>>>" ++ check (runes_of_ascii "// c
-packet x { @lengthOf( metadata )  lengthOf
-,a1{
-trueish	,// c
-repeat//	t
-MetaDataX , } , zchar[
-    42	] rootA // `tick` ""quote"" 'q'
-,
-    }
-")).
-Eval vm_compute in ("<<<M2076>>>" ++ check (runes_of_ascii "{
-_x
-= true
-} options
-{ o	= /// triple
-false
-    ; chars
-= ""\n"" } root packet	Pad
-/// triple
-// packet A { u8 x, }
-{	chars
-    // a // b
-    ,}")).
-Eval vm_compute in ("<<<M1785>>>" ++ check (runes_of_ascii "options { trueish = ""`tick`"" ; string_= """ ++ [233]%N ++ runes_of_ascii "t" ++ [233]%N ++ runes_of_ascii """
-    // c
-    } root
-    packet body { stringy @calculatedFrom(
-""a	b"" ) `line1
-line2` , }
-packet")).
-Eval vm_compute in ("<<<M4185>>>" ++ check (runes_of_ascii "packet A {
-    match k as n {
-        [
-            1, 007, 5, 7, ""bb"",
-            ""d"", ""f"", ""h""
-        ] : B,
-        2 : C,
-    },
-}")).
-Eval vm_compute in ("<<<M1770>>>" ++ check (runes_of_ascii "options { trueish = ""`tick`"" ; string_= """ ++ [233]%N ++ runes_of_ascii "t" ++ [233]%N ++ runes_of_ascii """
-    // c
-    } root
-    packet body { stringy @calculatedFrom(
-""a	b"" ) `line1
-line2`")).
-Eval vm_compute in ("<<<M1275>>>" ++ check (runes_of_ascii "packet Z9_
-{	}packet f32a	{
-repeat metadata
-//	t
-// " ++ [27880; 37322]%N ++ runes_of_ascii "
-`
-` , charz // @lengthOf(
-@calculatedFrom( ""a\\"" ) , i64
-charz , }
-")).
-Eval vm_compute in ("<<<M4201>>>" ++ check (runes_of_ascii "
-
-  packet A
+@lengthOf(	string_")).
+Eval vm_compute in ("<<<M4484>>>" ++ check (runes_of_ascii "
+root packet matchKey
 {
-    Inner 
-{ 
-match  k 
-as
+zchar[ 
+3 
+        // c
+]
 
-    n
-    { [ 1  , 
-22 ,  007 
-] : B
-    ,
+    pack
+    @calculatedFrom(
+    ""a	b""
+    )	`doc`
 
-    }
+, } options {}
 
-    ,
-    }	,
+MetaData
+A
 
-    }")).
-Eval vm_compute in ("<<<M3321>>>" ++ check (runes_of_ascii "root packet matchKey { zchar[
-// c
-3 ] pack @calculatedFrom( ""a	b"" ) `doc` , } options { } MetaData A { int8 msg_type , }")).
-Eval vm_compute in ("<<<M3353>>>" ++ check (runes_of_ascii "root packet matchKey { zchar[ 3 ] pack @calculatedFrom( ""a	b"" ) `doc` , } options { } MetaData A { int8
-// c
-msg_type , }")).
-Eval vm_compute in ("<<<M1474>>>" ++ check (runes_of_ascii "
-packet
-    false" ++ [233]%N ++ runes_of_ascii "y { Header@calculatedFrom(""packet""  ) , char[
-    0123456789 ] packetx
-    , } // `tick` ""quote"" 'q'")).
-Eval vm_compute in ("<<<M3022>>>" ++ check (runes_of_ascii "packet A {
-    Inner {
-        u8 x `a
-    b
-  c`,
-        Deep {
-            u8 y `a
-    b
-  c`,
-        },
-    },
-}")).
-Eval vm_compute in ("<<<M4146>>>" ++ check (runes_of_ascii "packet
-chars
-{
+{  int8
 
+msg_type  ,
 }
+")).
+Eval vm_compute in ("<<<M2112>>>" ++ check (runes_of_ascii "options{
+_x
+= true
+} options
+repeat o	= /// triple
+false
+    ; chars
+= ""\n"" } root packet	Pad
+/// triple
+// packet A { u8 x, }
+{	chars
+    // a // b
+    ,}")).
+Eval vm_compute in ("<<<M2412>>>" ++ check (runes_of_ascii "// c
+packet x { { @lengthOf( metadata ) repeat lengthOf
+,a1{
+trueish	,// c
+repeat//	t
+MetaDataX , } , zchar[
+    42	] rootA // `tick` ""quote"" 'q'
+,
+    }
+")).
+Eval vm_compute in ("<<<M2170>>>" ++ check (runes_of_ascii "options{
+_x
+= true
+} options
+{ o	= /// triple
+false
+    ; chars
+= ""\n"" } root packet	Pad
+/// triple
+// packet A { u8 x, }
+{ {	chars
+    // a // b
+    ,}")).
+Eval vm_compute in ("<<<M2193>>>" ++ check (runes_of_ascii "options{
+_x
+= true
+} options
+{ o	= /// triple
+false
+    ; chars
+" ++ [127]%N ++ runes_of_ascii "= ""\n"" } root packet	Pad
+/// triple
+// packet A { u8 x, }
+{	chars
+    // a // b
+    ,}")).
+Eval vm_compute in ("<<<M2126>>>" ++ check (runes_of_ascii "options{
+_x
+= true
+} options
+{ o	= /// triple
+;
+    false chars
+= ""\n"" } root packet	Pad
+/// triple
+// packet A { u8 x, }
+{	chars
+    // a // b
+    ,}")).
+Eval vm_compute in ("<<<M2129>>>" ++ check (runes_of_ascii "options{
+_x
+= true
+} options
+{ o	= /// triple
+false
+     chars
+= ""\n"" } root packet	Pad
+/// triple
+// packet A { u8 x, }
+{	chars
+    // a // b
+    ,}")).
+Eval vm_compute in ("<<<M4356>>>" ++ check (runes_of_ascii "// " ++ [27880; 37322]%N ++ runes_of_ascii "
+MetaData int {
+    // `tick` ""quote"" 'q'
+    char[4294967296] packetx `line1
+    line2`,
+    rootA matchKey `two words`,
+    matchKey Packet,
+}")).
+Eval vm_compute in ("<<<M3572>>>" ++ check (runes_of_ascii "root packet // c1
+P
+    // c2
+{
+    // c3
+repeat // c4
+string ss // c6
+,
+    // c7
+repeat // c8
+u16
+    // c9
+ns
+    // c10
+, // c11
+}
+    // c12
+")).
+Eval vm_compute in ("<<<M306>>>" ++ check (runes_of_ascii "packet
+    u128
+{ @lengthOf( options1
+)repeat int`" ++ [28040; 24687; 31867; 22411]%N ++ runes_of_ascii "` ,
+@calculatedFrom(
+    """" )
+repeat
+f32 Z9_	,
+zchar[
+007
+] msg_type
+`doc`
+    ,
+}
+")).
+Eval vm_compute in ("<<<M611>>>" ++ check (runes_of_ascii "root packet // " ++ [27880; 37322]%N ++ runes_of_ascii "
+_x	{repeat int64 trueish//x
+, string calculatedFrom , Z9_ As
+    , match tag
+as trueish { 65535:  repeatCount
+, }//
+, }
+")).
+Eval vm_compute in ("<<<M1775>>>" ++ check (runes_of_ascii "options { trueish = ""`tick`"" ; string_= """ ++ [233]%N ++ runes_of_ascii "t" ++ [233]%N ++ runes_of_ascii """
+    // c
+    } root
+    packet body { stringy @calculatedFrom(
+""a	b"" ) `line1
+line2` ,")).
+Eval vm_compute in ("<<<M4008>>>" ++ check (runes_of_ascii "  MetaData float 	 // c
+		{	float64
+    charz `
+` ,
 
-    packet	// c
-  MetaDataX  {
-@tag(
-	42
+    }root
+    packet	chars{
+@rightPad	( 
+'0'
 
     )
 
-i16	string_	,
-repeat
-	x`say ""hi""`	, }
+    Foo  ,
+	}
 ")).
-Eval vm_compute in ("<<<M2978>>>" ++ check (runes_of_ascii "packet A {
-  match k as n {
-    [""a"", ""bb"", ""c c"", ""d"", ""e"", ""f"", ""g"", ""h"", ""i"", ""j"", ""k""] : B
-    2 : C
-  },
-}")).
-Eval vm_compute in ("<<<M1026>>>" ++ check (runes_of_ascii "packet
-// " ++ [128512]%N ++ runes_of_ascii " emoji
-// @lengthOf(
-Header
-    {	}
-MetaData
-Packet {
-uint64 As `say ""hi""`,	}
-// trailing space 
-")).
-Eval vm_compute in ("<<<M48>>>" ++ check (runes_of_ascii "  options { zchar =  007
-Header =
-char[// c
-007 ] ;
-    lengthOf= char[
-7 ]; chars =//
-"""" // a // b
-;
-}
-")).
-Eval vm_compute in ("<<<M1080>>>" ++ check (runes_of_ascii "root packet Pad {
-float64
-// a // b
-//x
-Pad@lengthOf(repeatCount)
-,@lengthOf( _x ) BodyLength o
-,
-}
-")).
-Eval vm_compute in ("<<<M1546>>>" ++ check (runes_of_ascii "packet
-//	t
-// trailing space 
-_x {
-// packet A { u8 x, }
-// c
-char[
-3
-    ] u8x @lengthOf(
-u8x ) ,")).
-Eval vm_compute in ("<<<M102>>>" ++ check (runes_of_ascii "
+Eval vm_compute in ("<<<M541>>>" ++ check (runes_of_ascii "// @lengthOf(
 options {
-a1/// triple
-=""1""
-;
-trueish	=  i64 ; stringy=""" ++ [128512]%N ++ runes_of_ascii """
-; u8x
-= 255 ;
 u128
+    =  ' '  chars
 =
-""`tick`""; }
-
-")).
-Eval vm_compute in ("<<<M2946>>>" ++ check (runes_of_ascii "packet A {
-  match k as n {
-    [""a"", ""bb"", 007, ""d"", ""e"", 66, ""g"", ""h""] : B,
-    2 : C
-  },
-}")).
-Eval vm_compute in ("<<<M1531>>>" ++ check (runes_of_ascii "packet
-//	t
-// trailing space 
-_x {
-// packet A { u8 x, }
-// c
-char[
-3
-    ] u8x @lengthOf(")).
-Eval vm_compute in ("<<<M4053>>>" ++ check (runes_of_ascii "options {
-    x_y_z = ""CRC32"";
-}
-
-MetaData matchKey {
-    char[] u `u8 x,`,
-}
-
-options {
-}")).
-Eval vm_compute in ("<<<M3289>>>" ++ check (runes_of_ascii "MetaData float { float64 charz `
-` , } root packet chars // c
-{ @rightPad ( '0' ) Foo , }")).
-Eval vm_compute in ("<<<M3500>>>" ++ check (runes_of_ascii "packet chars { } packet MetaDataX { @tag(
-// c
-42 ) i16 string_ , repeat x `say ""hi""` , }")).
-Eval vm_compute in ("<<<M2282>>>" ++ check (runes_of_ascii "options
-{ } options { BodyLength= u16 Header= f64 ; u128 =
-    true
-    ; ; } // a // b")).
-Eval vm_compute in ("<<<M2929>>>" ++ check (runes_of_ascii "packet A {
-  match k as n {
-    [""a"", 22, ""c c"", 4, ""e"", 66, ""g""] : B,
-    2 : C
-  },
-}")).
-Eval vm_compute in ("<<<M2273>>>" ++ check (runes_of_ascii "options
-{ } options { BodyLength= u16 Header= f64 ; u128 true
+    char ; float=""// no comment"" repeatCount
+    //x
     =
-    ; } // a // b")).
-Eval vm_compute in ("<<<M3239>>>" ++ check (runes_of_ascii "packet metadata { Logon { A `" ++ [28040; 24687; 31867; 22411]%N ++ runes_of_ascii "` , tag o , } , zchar // c
-len `// not a comment` , }")).
-Eval vm_compute in ("<<<M3053>>>" ++ check (runes_of_ascii "packet A {
-    u32 crc @calculatedFrom(""x\
-y""),
-    @calculatedFrom(""x\
-y"") u8 y,
-}")).
-Eval vm_compute in ("<<<M3459>>>" ++ check (runes_of_ascii "packet o { repeat Logon uint8x , } options { asx = zchar[ 3 ] stringy // c
-= '\x00' }")).
-Eval vm_compute in ("<<<M2256>>>" ++ check (runes_of_ascii "options
-{ } options { BodyLength= u16 Header=  ; u128 =
-    true
-    ; } // a // b")).
-Eval vm_compute in ("<<<M3404>>>" ++ check (runes_of_ascii "MetaData body { i64 pack `it's` // c
-, } packet stringy { int16 calculatedFrom , }")).
-Eval vm_compute in ("<<<M4589>>>" ++ check (runes_of_ascii "packet zchar {
-    @lengthOf(Header)
-    f32 string_ `a\`,
-}// packet A { u8 x, }")).
-Eval vm_compute in ("<<<M4108>>>" ++ check (runes_of_ascii "packet A {
-    match k as n {
-        [1, 22, 007] : B,
-        2 : C,
-    },
-}")).
-Eval vm_compute in ("<<<M4480>>>" ++ check (runes_of_ascii "packet// c
-    x
+    false;
+}
+")).
+Eval vm_compute in ("<<<M3315>>>" ++ check (runes_of_ascii "root packet
+// c
+matchKey { zchar[ 3 ] pack @calculatedFrom( ""a	b"" ) `doc` , } options { } MetaData A { int8 msg_type , }")).
+Eval vm_compute in ("<<<M3347>>>" ++ check (runes_of_ascii "root packet matchKey { zchar[ 3 ] pack @calculatedFrom( ""a	b"" ) `doc` , } options { } MetaData
+// c
+A { int8 msg_type , }")).
+Eval vm_compute in ("<<<M4077>>>" ++ check (runes_of_ascii "options{ MetaDataX
+
+    =
+""\" ++ [233]%N ++ runes_of_ascii """}options
     {
 
-@rightPad
-    (  ) repeat
-	roots Logon`doc` 
-,
-
-}
-")).
-Eval vm_compute in ("<<<M2897>>>" ++ check (runes_of_ascii "packet A {
-  match k as n {
-    [1, 22, 007, 4, 5] : B,
-    2 : C
-  },
-}")).
-Eval vm_compute in ("<<<M2878>>>" ++ check (runes_of_ascii "packet A {
-  match k as n {
-    [""a"", 22, ""c c""] : B
-    2 : C
-  },
-}")).
-Eval vm_compute in ("<<<M4468>>>" ++ check (runes_of_ascii "  packet
-x
-{	@rightPad	(
-	)	// c
-repeat
-
-roots
-	Logon`doc`
-
-,  }
-")).
-Eval vm_compute in ("<<<M3790>>>" ++ check (runes_of_ascii "  root	packet f32a 
-{ 
-@tag(
-    42
-) char
-	Header
-    `
-`	, 
-}
-")).
-Eval vm_compute in ("<<<M2867>>>" ++ check (runes_of_ascii "packet A {
-  match k as n {
-    [1, ""bb""] : B
-    2 : C
-  },
-}")).
-Eval vm_compute in ("<<<M3387>>>" ++ check (runes_of_ascii "packet x { @rightPad ( ) repeat roots Logon `doc` , } // c
-")).
-Eval vm_compute in ("<<<M3379>>>" ++ check (runes_of_ascii "packet x { @rightPad ( ) repeat roots // c
-Logon `doc` , }")).
-Eval vm_compute in ("<<<M2345>>>" ++ check (runes_of_ascii "// c
-packet x { @lengthOf( metadata ) repeat lengthOf
-,")).
-Eval vm_compute in ("<<<M327>>>" ++ check (runes_of_ascii "options {
-_x = 0
-; As = zchar[ 4294967296 ] ; } //x")).
-Eval vm_compute in ("<<<M2589>>>" ++ check (runes_of_ascii "packet A { x @lengthOf(y) @calculatedFrom(""c""), }")).
-Eval vm_compute in ("<<<M801>>>" ++ check (runes_of_ascii "MetaData charz {
-//
+// @lengthOf(
 //	t
-f32a stringy
+    Logon= 
+""1""x_y_z = 65535 }MetaData
+
+//	t
+u8x{ }
+")).
+Eval vm_compute in ("<<<M1419>>>" ++ check (runes_of_ascii "
+packet
+    falsey { Header""packet""@calculatedFrom(  ) , char[
+    0123456789 ] packetx
+    , } // `tick` ""quote"" 'q'")).
+Eval vm_compute in ("<<<M3963>>>" ++ check (runes_of_ascii "packet A {
+    u16 len @lengthOf(body) `a
+    b`,
+    u32 crc @calculatedFrom(""CRC32"") `a
+    b`,
+    string body,
+}")).
+Eval vm_compute in ("<<<M589>>>" ++ check (runes_of_ascii "
+options
+    {
+} MetaData u8x{	i32 int // a // b
+, i64 A ,
+    o Z9_ `tab	here`
+    ,
+    // @lengthOf(
+    }
+")).
+Eval vm_compute in ("<<<M2>>>" ++ check (runes_of_ascii "packet i8i8
+    {
+char[
+1
+] f32a@calculatedFrom(//	t
+""\n"" )
+    // packet A { u8 x, }
+    , repeat charz,}
+")).
+Eval vm_compute in ("<<<M3563>>>" ++ check (runes_of_ascii "options {
+    LittleEndian = true;
+}
+root packet P {
+    u16 a,
+    u32 Sum @calculatedFrom(""CR\
+C32""),
+}
+")).
+Eval vm_compute in ("<<<M3762>>>" ++ check (runes_of_ascii "packet	metadata{ Logon{ 	 // c
+    A	`" ++ [28040; 24687; 31867; 22411]%N ++ runes_of_ascii "` ,
+tag
+o, }
+    , 
+zchar
+
+len
+	`// not a comment`
+    ,
+}
+")).
+Eval vm_compute in ("<<<M37>>>" ++ check (runes_of_ascii "MetaData
+chars { f32 metadata , i64
+    metadata
+// trailing space 
+//x
+`
+` // `tick` ""quote"" 'q'
+,}")).
+Eval vm_compute in ("<<<M2969>>>" ++ check (runes_of_ascii "packet A {
+  match k as n {
+    [""a"", 22, ""c c"", 4, ""e"", 66, ""g"", 8, ""i"", 10] : B
+    2 : C
+  },
+}")).
+Eval vm_compute in ("<<<M3893>>>" ++ check (runes_of_ascii "
+packet
+
+Inner
+{
+u8
+
+    a
+
+,
+    } root
+packet P
+{ Inner
+ref_obj ,
+	u8
+x
+
+    ,
+
+    }")).
+Eval vm_compute in ("<<<M2971>>>" ++ check (runes_of_ascii "packet A {
+  match k as n {
+    [1, 22, ""c c"", 4, 5, ""f"", 7, 8, ""i"", 10] : B
+    2 : C
+  },
+}")).
+Eval vm_compute in ("<<<M3538>>>" ++ check (runes_of_ascii "packet Inner
+
+{u8
+
+a , }	root packet
+	P
+	{ repeat
+
+    Inner items , u8
+    x
+
+    , 
+}")).
+Eval vm_compute in ("<<<M2933>>>" ++ check (runes_of_ascii "packet A {
+  match k as n {
+    [""a"", ""bb"", 007, ""d"", ""e"", 66, ""g""] : B,
+    2 : C
+  },
+}")).
+Eval vm_compute in ("<<<M3295>>>" ++ check (runes_of_ascii "MetaData float { float64 charz `
+` , } root packet chars { @rightPad ( // c
+'0' ) Foo , }")).
+Eval vm_compute in ("<<<M3506>>>" ++ check (runes_of_ascii "packet chars { } packet MetaDataX { @tag( 42 ) i16
+// c
+string_ , repeat x `say ""hi""` , }")).
+Eval vm_compute in ("<<<M2308>>>" ++ check (runes_of_ascii "options
+{ } options { BodyLength= u16 Header= f64 ; caf" ++ [233]%N ++ runes_of_ascii "_1 =
+    true
+    ; } // a // b")).
+Eval vm_compute in ("<<<M3921>>>" ++ check (runes_of_ascii "packet A {
+    B b `a
+        b`,
+    B `a
+        b`,
+    repeat B bs `a
+        b`,
+}")).
+Eval vm_compute in ("<<<M3214>>>" ++ check (runes_of_ascii "packet
+// c
+metadata { Logon { A `" ++ [28040; 24687; 31867; 22411]%N ++ runes_of_ascii "` , tag o , } , zchar len `// not a comment` , }")).
+Eval vm_compute in ("<<<M3246>>>" ++ check (runes_of_ascii "packet metadata { Logon { A `" ++ [28040; 24687; 31867; 22411]%N ++ runes_of_ascii "` , tag o , } , zchar len `// not a comment` ,
+// c
+}")).
+Eval vm_compute in ("<<<M3437>>>" ++ check (runes_of_ascii "packet o { repeat Logon // c
+uint8x , } options { asx = zchar[ 3 ] stringy = '\x00' }")).
+Eval vm_compute in ("<<<M1397>>>" ++ check (runes_of_ascii "root packet SimpleMessage {
+	uint16 MsgType `" ++ [28040; 24687; 31867; 22411]%N ++ runes_of_ascii "`,
+	string JsonBody `Json" ++ [23383; 31526; 20018; 28040; 24687; 20307]%N ++ runes_of_ascii "`,
+}")).
+Eval vm_compute in ("<<<M3991>>>" ++ check (runes_of_ascii "packet Header {
+}
+
+MetaData Packet {
+    uint64 As `say ""hi""`,
+}
+// trailing space ")).
+Eval vm_compute in ("<<<M3412>>>" ++ check (runes_of_ascii "MetaData body { i64 pack `it's` , } packet stringy // c
+{ int16 calculatedFrom , }")).
+Eval vm_compute in ("<<<M4607>>>" ++ check (runes_of_ascii "MetaData
+    M { u8
+
+    x `d`
+
+    ,  y
+
+    z 
+`e`,char[ 3	] 
+w
+    ,
+	} ")).
+Eval vm_compute in ("<<<M2924>>>" ++ check (runes_of_ascii "packet A {
+  match k as n {
+    [1, 22, 007, 4, 5, 66, 7] : B
+    2 : C
+  },
+}")).
+Eval vm_compute in ("<<<M3902>>>" ++ check (runes_of_ascii "packet
+    A {
+match 
+k
+
+as
+n  {
+    [ 1
+,
+22
+    ,
+	007  ] :B,
+2 : C}	, }")).
+Eval vm_compute in ("<<<M2889>>>" ++ check (runes_of_ascii "packet A {
+  match k as n {
+    [1, ""bb"", 007, ""d""] : B
+    2 : C
+  },
+}")).
+Eval vm_compute in ("<<<M4546>>>" ++ check (runes_of_ascii "  packet
+float	//	t
+      { //
+  }MetaData i8i8
+	{ 
+uint8x	i8i8 
+, }
+")).
+Eval vm_compute in ("<<<M2876>>>" ++ check (runes_of_ascii "packet A {
+  match k as n {
+    [1, ""bb"", 007] : B
+    2 : C
+  },
+}")).
+Eval vm_compute in ("<<<M526>>>" ++ check (runes_of_ascii "//
+MetaData o { i16 zchar // a // b
+, char[//	t
+00
+] string_	, }")).
+Eval vm_compute in ("<<<M1157>>>" ++ check (runes_of_ascii "
+MetaData lengthOf
+    {	uint32
+T `crlf
+line` ,}
+/// triple
+")).
+Eval vm_compute in ("<<<M2340>>>" ++ check (runes_of_ascii "// c
+packet x { @lengthOf( metadata ) repeat lengthOf
+,a1{")).
+Eval vm_compute in ("<<<M3371>>>" ++ check (runes_of_ascii "packet x { @rightPad // c
+( ) repeat roots Logon `doc` , }")).
+Eval vm_compute in ("<<<M195>>>" ++ check (runes_of_ascii "packet i8i8// a // b
+{ a1`{ , }` ,
+// a // b
+// " ++ [27880; 37322]%N ++ runes_of_ascii "
+} //x")).
+Eval vm_compute in ("<<<M3177>>>" ++ check (runes_of_ascii "packet A { repeat // a
+ B // b
+ b // c
+ `d` // e
+ , }")).
+Eval vm_compute in ("<<<M3570>>>" ++ check (runes_of_ascii "
+
+  root
+
+    packet
+P
+
+{ string
+s
+
     ,	}
 ")).
-Eval vm_compute in ("<<<M4435>>>" ++ check (runes_of_ascii "
-
-  //	t
-packet
-	Packet {  u64 tag
-	,
-    }
-")).
-Eval vm_compute in ("<<<M1265>>>" ++ check (runes_of_ascii "  options //
-{ u8x
-=
-    zchar[ 0  ]
+Eval vm_compute in ("<<<M346>>>" ++ check (runes_of_ascii "MetaData leftPad // `tick` ""quote"" 'q'
+{
     }")).
-Eval vm_compute in ("<<<M3187>>>" ++ check (runes_of_ascii "// c
-root packet u128 { chars `it's` , }")).
-Eval vm_compute in ("<<<M1059>>>" ++ check (runes_of_ascii "MetaData uint8x // trailing space 
-{	}")).
-Eval vm_compute in ("<<<M2616>>>" ++ check (runes_of_ascii "packet A { match k as n { x : B }, }")).
-Eval vm_compute in ("<<<M3176>>>" ++ check (runes_of_ascii "root // a
- packet // b
- A // c
- { }")).
-Eval vm_compute in ("<<<M682>>>" ++ check (runes_of_ascii "  MetaData
-    options1  {
+Eval vm_compute in ("<<<M272>>>" ++ check (runes_of_ascii "
+root  packet zchar
+    {zchar[007] Foo , }")).
+Eval vm_compute in ("<<<M3049>>>" ++ check (runes_of_ascii "options {
+    a = ""x\
+y"";
+    b = ""x\
+y""
+}")).
+Eval vm_compute in ("<<<M3193>>>" ++ check (runes_of_ascii "root packet u128 // c
+{ chars `it's` , }")).
+Eval vm_compute in ("<<<M2250>>>" ++ check (runes_of_ascii "options
+{ } options { BodyLength= u16")).
+Eval vm_compute in ("<<<M2787>>>" ++ check ([11; 65533]%N ++ runes_of_ascii "7" ++ [65533; 442; 12]%N ++ runes_of_ascii "r" ++ [951]%N ++ runes_of_ascii "{
+7" ++ [65533]%N ++ runes_of_ascii "	" ++ [65533]%N ++ runes_of_ascii "T" ++ [65533; 65533]%N ++ runes_of_ascii "+" ++ [65533]%N ++ runes_of_ascii "U" ++ [65533; 65533]%N ++ runes_of_ascii "Z" ++ [65533; 65533]%N ++ runes_of_ascii "?le" ++ [2015; 30]%N ++ runes_of_ascii "e?Ye" ++ [65533]%N ++ runes_of_ascii "=")).
+Eval vm_compute in ("<<<M4559>>>" ++ check (runes_of_ascii "packet A {
+    u8 x `tab
+    	x`,
+}")).
+Eval vm_compute in ("<<<M2731>>>" ++ check (runes_of_ascii "( '\x00' = _x root , ] string ( (")).
+Eval vm_compute in ("<<<M4427>>>" ++ check (runes_of_ascii "
+
+  packet  len
+    {
+
     }
 ")).
-Eval vm_compute in ("<<<M3042>>>" ++ check (runes_of_ascii "root packet A {
-    u8 x `
-x`,
+Eval vm_compute in ("<<<M3072>>>" ++ check (runes_of_ascii "packet A {
+ u8 x `d" ++ [160]%N ++ runes_of_ascii "`, // c" ++ [160]%N ++ runes_of_ascii "
 }")).
-Eval vm_compute in ("<<<M2760>>>" ++ check (runes_of_ascii "RhCe{*)SOkbY3jNAmCPh}|2~2jWOF^")).
-Eval vm_compute in ("<<<M3025>>>" ++ check (runes_of_ascii "packet A {
-    u8 x `a
+Eval vm_compute in ("<<<M4598>>>" ++ check (runes_of_ascii "
+packet
+	A	{  u8 x
 
-b`,
-}")).
-Eval vm_compute in ("<<<M2786>>>" ++ check (runes_of_ascii "MetaData zchar[ repeatCount")).
-Eval vm_compute in ("<<<M1137>>>" ++ check (runes_of_ascii "packet
-i8i8
-    { }
-// c
+`
+`
+, }
 ")).
-Eval vm_compute in ("<<<M2710>>>" ++ check (runes_of_ascii "-t" ++ [65533]%N ++ runes_of_ascii " =" ++ [65533; 65533; 65533; 1092; 65533; 65533; 65533; 3; 65533; 0]%N ++ runes_of_ascii "'H" ++ [65533; 65533]%N ++ runes_of_ascii "d" ++ [65533]%N ++ runes_of_ascii "" ++ [65533; 65533]%N)).
-Eval vm_compute in ("<<<M700>>>" ++ check (runes_of_ascii "  MetaData crc { } 	 ")).
-Eval vm_compute in ("<<<M3471>>>" ++ check (runes_of_ascii "
-// c
-MetaData o { }")).
-Eval vm_compute in ("<<<M3145>>>" ++ check (runes_of_ascii "packet A {
-}
-// c x")).
-Eval vm_compute in ("<<<M3071>>>" ++ check (runes_of_ascii "// c" ++ [160]%N ++ runes_of_ascii "
+Eval vm_compute in ("<<<M2807>>>" ++ check (runes_of_ascii "Nx>%""+FOjL#!9!ewSS+QVDXT-b5")).
+Eval vm_compute in ("<<<M1342>>>" ++ check (runes_of_ascii "// packet A { u8 x, }
+ 	 ")).
+Eval vm_compute in ("<<<M2581>>>" ++ check (runes_of_ascii "packet A { char[ 3 ] , }")).
+Eval vm_compute in ("<<<M2815>>>" ++ check (runes_of_ascii "int64 uint32 u16 false")).
+Eval vm_compute in ("<<<M2620>>>" ++ check (runes_of_ascii "packet A { @tag(1) }")).
+Eval vm_compute in ("<<<M2646>>>" ++ check (runes_of_ascii "MetaData M { x y, }")).
+Eval vm_compute in ("<<<M3066>>>" ++ check (runes_of_ascii "// c" ++ [12288]%N ++ runes_of_ascii "
 packet A {
 }")).
-Eval vm_compute in ("<<<M4492>>>" ++ check (runes_of_ascii "packet packetx {
-}")).
-Eval vm_compute in ("<<<M3138>>>" ++ check (runes_of_ascii "packet A {
-}// c" ++ [6158]%N)).
-Eval vm_compute in ("<<<M4303>>>" ++ check (runes_of_ascii "  options{  }
+Eval vm_compute in ("<<<M3167>>>" ++ check (runes_of_ascii "packet A { // a
+ }")).
+Eval vm_compute in ("<<<M3133>>>" ++ check (runes_of_ascii "packet A {
+}// c" ++ [65279]%N)).
+Eval vm_compute in ("<<<M3156>>>" ++ check (runes_of_ascii "
+
+  packet A {}")).
+Eval vm_compute in ("<<<M1334>>>" ++ check (runes_of_ascii "options
+{ }
 ")).
-Eval vm_compute in ("<<<M2553>>>" ++ check ([65279]%N ++ runes_of_ascii "packet A {}")).
 Eval vm_compute in ("<<<M2837>>>" ++ check (runes_of_ascii "xc" ++ [65533; 65533; 65533]%N ++ runes_of_ascii " " ++ [65533; 1320]%N ++ runes_of_ascii "9" ++ [25]%N)).
-Eval vm_compute in ("<<<M1406>>>" ++ check (runes_of_ascii "
-packet")).
-Eval vm_compute in ("<<<M2515>>>" ++ check (runes_of_ascii """a\b""")).
-Eval vm_compute in ("<<<M2838>>>" ++ check (runes_of_ascii "{yr*k")).
-Eval vm_compute in ("<<<M2510>>>" ++ check (runes_of_ascii """a\""")).
-Eval vm_compute in ("<<<M2524>>>" ++ check (runes_of_ascii "`\`")).
-Eval vm_compute in ("<<<M2508>>>" ++ check (runes_of_ascii """a")).
-Eval vm_compute in ("<<<M2791>>>" ++ check ([65533]%N)).
+Eval vm_compute in ("<<<M2437>>>" ++ check (runes_of_ascii "zchar[]")).
+Eval vm_compute in ("<<<M3144>>>" ++ check (runes_of_ascii "// c x")).
+Eval vm_compute in ("<<<M3094>>>" ++ check (runes_of_ascii "// c" ++ [8232]%N)).
+Eval vm_compute in ("<<<M2543>>>" ++ check (runes_of_ascii "[[]]")).
+Eval vm_compute in ("<<<M2549>>>" ++ check (runes_of_ascii "a" ++ [11]%N ++ runes_of_ascii "b")).
+Eval vm_compute in ("<<<M2556>>>" ++ check ([233]%N ++ runes_of_ascii "a")).
